@@ -1,757 +1,3 @@
-// GENERATED by harness/gen/zoo.py - build artefact, do not edit
-pub const GEN_HASH: &str = "5638944e1cca261f";
-#[derive(SystemData)] pub struct Z7_0<'a, U0, U1>(PhantomData<(Write<'a, D1>,)>, U0, U1) where U0: SystemData<'a>, U1: SystemData<'a>;
-shredh::zoo_case!(c7, 7, 'a, Z7_0<'a, Write<'a, D2>, Option<Read<'a, N1, PanicHandler>>>);
-#[derive(SystemData)] pub struct Z15_0<'a, T0: Debug + Resource + for<'b> Hrtb<'b>>(Write<'a, T0, Hc<D3>>);
-shredh::zoo_case!(c15, 15, 'a, (Option<Read<'a, D0, PanicHandler>>, Z15_0<'a, D0>, ));
-#[derive(SystemData)] pub struct Z23_0<'a, U0: SystemData<'a>> { pub f0: U0, pub f1: Option<WriteExpect<'a, D1>>, pub f2: (), }
-shredh::zoo_case!(c23, 23, 'a, Z23_0<'a, Read<'a, D2, DefaultProvider>>);
-#[derive(SystemData)] pub struct Z31_0<'a> { f0: Write<'a, D1, DefaultProvider>, f1: (Write<'a, D1, Hc<D3>>, ), }
-shredh::zoo_case!(c31, 31, 'a, Z31_0<'a>);
-shredh::zoo_case!(c39, 39, 'a, PhantomData<fn() -> N2>);
-shredh::zoo_case!(c47, 47, 'a, (Read<'a, D1>, Option<Write<'a, N0, PanicHandler>>, ));
-#[derive(SystemData)] pub struct Z55_0<'a> { pub f0: Option<WriteExpect<'a, D1>>, }
-shredh::zoo_case!(c55, 55, 'a, (Z55_0<'a>, ));
-#[derive(SystemData)] pub struct Z63_0<'a, U0>(pub U0, pub Write<'a, D1>) where U0: SystemData<'a>;
-shredh::zoo_case!(c63, 63, 'a, Z63_0<'a, WriteExpect<'a, N0>>);
-#[derive(SystemData)] pub struct Z71_1<'a>(pub Read<'a, D0>);
-#[derive(SystemData)] pub struct Z71_0<'a>(pub Z71_1<'a>);
-shredh::zoo_case!(c71, 71, 'a, Z71_0<'a>);
-#[derive(SystemData)] pub struct Z79_0<'a, T0: Debug + Resource + for<'b> Hrtb<'b> + Default, T1: Debug + Resource> { pub f0: Write<'a, T0>, pub f1: Option<Write<'a, T1>>, }
-shredh::zoo_case!(c79, 79, 'a, Z79_0<'a, D2, D2>);
-#[derive(SystemData)] pub struct Z87_1<'a, T0> where T0: Debug + Resource { pub f0: Option<Read<'a, T0, PanicHandler>>, }
-#[derive(SystemData)] pub struct Z87_0<'a> { pub f0: Z87_1<'a, N0>, }
-shredh::zoo_case!(c87, 87, 'a, Z87_0<'a>);
-#[derive(SystemData)] pub struct Z95_0<'a> { f0: Read<'a, D0, Hc<D3>>, }
-shredh::zoo_case!(c95, 95, 'a, ((Read<'a, D0, PanicHandler>, ), Z95_0<'a>, ));
-shredh::zoo_case!(c103, 103, 'a, (Read<'a, D2, PanicHandler>, ));
-#[derive(SystemData)] pub struct Z111_1<'a>(Read<'a, D1, Hc<D3>>);
-#[derive(SystemData)] pub struct Z111_0<'a>(pub (Read<'a, D3, DefaultProvider>, ), pub Z111_1<'a>);
-shredh::zoo_case!(c111, 111, 'a, Z111_0<'a>);
-#[derive(SystemData)] pub struct Z119_0<'a, T0>(Read<'a, T0, DefaultProvider>) where T0: Debug + Resource + Default;
-shredh::zoo_case!(c119, 119, 'a, Z119_0<'a, D2>);
-#[derive(SystemData)] pub struct Z127_1<'a, T0>(pub Write<'a, T0, Hc<D3>>) where T0: Debug + Resource;
-#[derive(SystemData)] pub struct Z127_0<'a> { f0: ((), ), f1: Z127_1<'a, D2>, }
-shredh::zoo_case!(c127, 127, 'a, Z127_0<'a>);
-shredh::zoo_case!(c135, 135, 'a, (Write<'a, D0, DefaultProvider>, ));
-shredh::zoo_case!(c143, 143, 'a, (Option<Write<'a, D1, PanicHandler>>, PhantomData<(Write<'a, D1>,)>, Read<'a, D2>, ));
-shredh::zoo_case!(c151, 151, 'a, (PhantomData<&'a u8>, (Write<'a, N3, PanicHandler>, ), ));
-#[derive(SystemData)] pub struct Z159_0<'a, T0: Debug + Resource, T1: Resource + ZRes>(pub Read<'a, T0>, pub Write<'a, D0, DefaultProvider>, pub Read<'a, T1>);
-shredh::zoo_case!(c159, 159, 'a, Z159_0<'a, D2, D0>);
-#[derive(SystemData)] pub struct Z167_1<'a> { f0: Read<'a, D1, Hc<D0>>, }
-#[derive(SystemData)] pub struct Z167_0<'a>(Option<Read<'a, D1>>, Z167_1<'a>);
-shredh::zoo_case!(c167, 167, 'a, Z167_0<'a>);
-#[derive(SystemData)] pub struct Z175_0<'a> { pub f0: Option<Read<'a, N0, PanicHandler>>, pub f1: ReadExpect<'a, N0>, pub f2: Option<ReadExpect<'a, N1>>, }
-shredh::zoo_case!(c175, 175, 'a, Z175_0<'a>);
-#[derive(SystemData)] pub struct Z183_1<'a, T0>(Read<'a, T0, Hc<D0>>) where T0: Resource + ZRes;
-#[derive(SystemData)] pub struct Z183_0<'a, U0> where U0: SystemData<'a> { f0: U0, f1: Z183_1<'a, D3>, }
-shredh::zoo_case!(c183, 183, 'a, Z183_0<'a, PhantomData<D0>>);
-shredh::zoo_case!(c191, 191, 'a, Write<'a, D0, PanicHandler>);
-shredh::zoo_case!(c199, 199, 'a, (ReadExpect<'a, N0>, Read<'a, D1, DefaultProvider>, ));
-shredh::zoo_case!(c207, 207, 'a, ((Read<'a, D0, Hc<D1>>, ), ));
-#[derive(SystemData)] pub struct Z215_0<'a>(pub Read<'a, D1, Hc<D0>>, pub Option<Read<'a, D1, PanicHandler>>);
-shredh::zoo_case!(c215, 215, 'a, Z215_0<'a>);
-#[derive(SystemData)] pub struct Z223_0<'a>(pub (Read<'a, D3, Hc<D1>>, ));
-shredh::zoo_case!(c223, 223, 'a, Z223_0<'a>);
-#[derive(SystemData)] pub struct Z231_0<'a, T0, T1> where T0: Debug + Resource + for<'b> Hrtb<'b>, T1: Debug + Resource { pub f0: Read<'a, T0>, pub f1: Option<WriteExpect<'a, T1>>, }
-shredh::zoo_case!(c231, 231, 'a, Z231_0<'a, D2, D2>);
-#[derive(SystemData)] pub struct Z239_1<'a>(Write<'a, D2, Hc<D0>>);
-#[derive(SystemData)] pub struct Z239_0<'a> { pub f0: Z239_1<'a>, }
-shredh::zoo_case!(c239, 239, 'a, Z239_0<'a>);
-#[derive(SystemData)] pub struct Z247_0<'a> { pub f0: Option<Read<'a, D1>>, }
-#[derive(SystemData)] pub struct Z247_1<'a>(pub Write<'a, D1, Hc<D3>>);
-shredh::zoo_case!(c247, 247, 'a, (Z247_0<'a>, Z247_1<'a>, ));
-shredh::zoo_case!(c255, 255, 'a, (Option<Read<'a, D3, PanicHandler>>, ));
-shredh::zoo_case!(c263, 263, 'a, ((Write<'a, D1, PanicHandler>, ), ((), ), ));
-#[derive(SystemData)] pub struct Z271_0<'a>(pub Read<'a, N2, PanicHandler>);
-shredh::zoo_case!(c271, 271, 'a, Z271_0<'a>);
-#[derive(SystemData)] pub struct Z279_0<'a, U0> where U0: SystemData<'a> { f0: U0, f1: (Write<'a, D1, Hc<D2>>, ), }
-shredh::zoo_case!(c279, 279, 'a, Z279_0<'a, (WriteExpect<'a, D1>, )>);
-#[derive(SystemData)] pub struct Z287_0<'a> { f0: Read<'a, D2, Hc<D0>>, }
-shredh::zoo_case!(c287, 287, 'a, Z287_0<'a>);
-shredh::zoo_case!(c295, 295, 'a, (Option<ReadExpect<'a, N3>>, (), Option<WriteExpect<'a, N2>>, ));
-shredh::zoo_case!(c303, 303, 'a, ((WriteExpect<'a, D1>, ), Write<'a, D1, Hc<D2>>, ));
-#[derive(SystemData)] pub struct Z311_0<'a>(pub (), pub Option<Read<'a, D0, PanicHandler>>, pub Option<ReadExpect<'a, N2>>);
-shredh::zoo_case!(c311, 311, 'a, Z311_0<'a>);
-#[derive(SystemData)] pub struct Z319_0<'a>(pub Write<'a, D0, Hc<D1>>, pub (Option<Read<'a, D1>>, ));
-shredh::zoo_case!(c319, 319, 'a, Z319_0<'a>);
-#[derive(SystemData)] pub struct Z327_0<'a, T0: Resource, T1: Resource> { pub f0: Write<'a, T0>, pub f1: Read<'a, T1, PanicHandler>, pub f2: (), }
-shredh::zoo_case!(c327, 327, 'a, Z327_0<'a, D3, D3>);
-#[derive(SystemData)] pub struct Z335_0<'a> { f0: Option<Read<'a, D2>>, f1: (Read<'a, D2, Hc<D0>>, ), }
-shredh::zoo_case!(c335, 335, 'a, Z335_0<'a>);
-shredh::zoo_case!(c343, 343, 'a, Option<WriteExpect<'a, D0>>);
-shredh::zoo_case!(c351, 351, 'a, (Write<'a, D2, Hc<D0>>, Option<ReadExpect<'a, D0>>, ));
-shredh::zoo_case!(c359, 359, 'a, ((Read<'a, D2>, ), ));
-#[derive(SystemData)] pub struct Z367_0<'a>(pub WriteExpect<'a, D1>, pub ReadExpect<'a, D0>);
-shredh::zoo_case!(c367, 367, 'a, Z367_0<'a>);
-shredh::zoo_case!(c375, 375, 'a, ((Write<'a, D3, Hc<D1>>, ), ));
-#[derive(SystemData)] pub struct Z383_0<'a> { pub f0: Read<'a, D2>, pub f1: Write<'a, D1, Hc<D2>>, }
-shredh::zoo_case!(c383, 383, 'a, Z383_0<'a>);
-shredh::zoo_case!(c391, 391, 'a, (((), ), ));
-shredh::zoo_case!(c399, 399, 'a, ((Write<'a, D3, Hc<D1>>, ), (Read<'a, D1, Hc<D3>>, ), ));
-shredh::zoo_case!(c407, 407, 'a, (Write<'a, D1, Hc<D2>>, ));
-#[derive(SystemData)] pub struct Z415_0<'a>(((), ), (Read<'a, D3, PanicHandler>, ));
-shredh::zoo_case!(c415, 415, 'a, Z415_0<'a>);
-#[derive(SystemData)] pub struct Z423_0<'a, T0>(Option<Read<'a, T0>>) where T0: Debug + Resource;
-shredh::zoo_case!(c423, 423, 'a, Z423_0<'a, D2>);
-#[derive(SystemData)] pub struct Z431_1<'a, T0: Resource + ZRes> { pub f0: Write<'a, T0, Hc<D3>>, }
-#[derive(SystemData)] pub struct Z431_2<'a, T0> where T0: Resource { f0: Option<WriteExpect<'a, T0>>, }
-#[derive(SystemData)] pub struct Z431_0<'a> { pub f0: Z431_1<'a, D1>, pub f1: Z431_2<'a, D3>, }
-shredh::zoo_case!(c431, 431, 'a, Z431_0<'a>);
-shredh::zoo_case!(c439, 439, 'a, (Write<'a, D1>, ));
-shredh::zoo_case!(c447, 447, 'a, (Read<'a, D0, DefaultProvider>, Option<Read<'a, N2>>, WriteExpect<'a, D0>, ));
-shredh::zoo_case!(c455, 455, 'a, ((Write<'a, D1, Hc<D0>>, ), Write<'a, D0, PanicHandler>, ));
-#[derive(SystemData)] pub struct Z463_0<'a, U0: SystemData<'a>, T0: Debug + Resource + for<'b> Hrtb<'b>>(U0, Option<Read<'a, N1>>, Read<'a, T0, PanicHandler>);
-shredh::zoo_case!(c463, 463, 'a, Z463_0<'a, (), N1>);
-#[derive(SystemData)] pub struct Z471_1<'a> { pub f0: Write<'a, D0, Hc<D3>>, }
-#[derive(SystemData)] pub struct Z471_0<'a>(Read<'a, D3, PanicHandler>, Z471_1<'a>);
-shredh::zoo_case!(c471, 471, 'a, Z471_0<'a>);
-#[derive(SystemData)] pub struct Z479_0<'a, T0, T1> where T0: Debug + Resource + for<'b> Hrtb<'b>, T1: Debug + Resource + for<'b> Hrtb<'b> { pub f0: Option<ReadExpect<'a, T0>>, pub f1: Option<Read<'a, T1>>, pub f2: Option<Write<'a, N3>>, }
-shredh::zoo_case!(c479, 479, 'a, Z479_0<'a, N2, N3>);
-#[derive(SystemData)] pub struct Z487_1<'a, T0> where T0: Debug + Resource { pub f0: Read<'a, T0, Hc<D1>>, }
-#[derive(SystemData)] pub struct Z487_0<'a> { pub f0: PhantomData<fn() -> N2>, pub f1: Z487_1<'a, D2>, }
-shredh::zoo_case!(c487, 487, 'a, Z487_0<'a>);
-shredh::zoo_case!(c495, 495, 'a, Read<'a, D3, DefaultProvider>);
-shredh::zoo_case!(c503, 503, 'a, (Write<'a, D3, Hc<D0>>, Write<'a, D0, Hc<D3>>, ));
-shredh::zoo_case!(c511, 511, 'a, ((Write<'a, D3, Hc<D0>>, ), ));
-#[derive(SystemData)] pub struct Z519_0<'a>(pub Write<'a, D2>, pub PhantomData<str>);
-shredh::zoo_case!(c519, 519, 'a, Z519_0<'a>);
-shredh::zoo_case!(c527, 527, 'a, ((PhantomData<str>, ), ));
-#[derive(SystemData)] pub struct Z535_0<'a> { f0: ReadExpect<'a, N1>, f1: PhantomData<[u32]>, }
-shredh::zoo_case!(c535, 535, 'a, Z535_0<'a>);
-#[derive(SystemData)] pub struct Z543_1<'a> { pub f0: Write<'a, D2, DefaultProvider>, }
-#[derive(SystemData)] pub struct Z543_0<'a> { pub f0: Z543_1<'a>, }
-shredh::zoo_case!(c543, 543, 'a, Z543_0<'a>);
-#[derive(SystemData)] pub struct Z551_0<'a> { pub f0: Read<'a, D3, Hc<D2>>, }
-shredh::zoo_case!(c551, 551, 'a, ((Write<'a, D3, DefaultProvider>, ), Z551_0<'a>, ));
-shredh::zoo_case!(c559, 559, 'a, (Read<'a, D2>, ));
-#[derive(SystemData)] pub struct Z567_0<'a>((Write<'a, D1, Hc<D0>>, ), (ReadExpect<'a, D0>, ));
-shredh::zoo_case!(c567, 567, 'a, Z567_0<'a>);
-#[derive(SystemData)] pub struct Z575_0<'a>(pub Option<Write<'a, D0, PanicHandler>>);
-shredh::zoo_case!(c575, 575, 'a, Z575_0<'a>);
-#[derive(SystemData)] pub struct Z583_1<'a, T0: Resource + ZRes> { pub f0: Write<'a, T0, Hc<D1>>, }
-#[derive(SystemData)] pub struct Z583_0<'a> { f0: (Read<'a, D2, Hc<D1>>, ), f1: Z583_1<'a, D2>, }
-shredh::zoo_case!(c583, 583, 'a, Z583_0<'a>);
-#[derive(SystemData)] pub struct Z591_0<'a, T0: Debug + Resource + for<'b> Hrtb<'b>> { pub f0: Option<WriteExpect<'a, T0>>, }
-shredh::zoo_case!(c591, 591, 'a, Z591_0<'a, D1>);
-shredh::zoo_case!(c599, 599, 'a, (Write<'a, D0>, Option<Write<'a, D2>>, Read<'a, D2>, ));
-#[derive(SystemData)] pub struct Z607_0<'a> { f0: Read<'a, D1, Hc<D2>>, }
-shredh::zoo_case!(c607, 607, 'a, (Option<Read<'a, D1, PanicHandler>>, Z607_0<'a>, ));
-#[derive(SystemData)] pub struct Z615_1<'a>(Option<WriteExpect<'a, N3>>);
-#[derive(SystemData)] pub struct Z615_0<'a> { f0: Z615_1<'a>, }
-shredh::zoo_case!(c615, 615, 'a, Z615_0<'a>);
-#[derive(SystemData)] pub struct Z623_0<'a> { pub f0: Write<'a, D2, Hc<D0>>, }
-#[derive(SystemData)] pub struct Z623_1<'a> { f0: Write<'a, D0, DefaultProvider>, }
-shredh::zoo_case!(c623, 623, 'a, (Z623_0<'a>, Z623_1<'a>, ));
-#[derive(SystemData)] pub struct Z631_1<'a>(Read<'a, D1, Hc<D0>>);
-#[derive(SystemData)] pub struct Z631_0<'a> { f0: Read<'a, D0, DefaultProvider>, f1: Z631_1<'a>, }
-shredh::zoo_case!(c631, 631, 'a, Z631_0<'a>);
-#[derive(SystemData)] pub struct Z639_0<'a> { pub f0: PhantomData<u8>, pub f1: WriteExpect<'a, N0>, }
-shredh::zoo_case!(c639, 639, 'a, Z639_0<'a>);
-#[derive(SystemData)] pub struct Z647_1<'a>(pub Option<Write<'a, D3>>);
-#[derive(SystemData)] pub struct Z647_0<'a> { f0: Z647_1<'a>, f1: (Read<'a, D3, DefaultProvider>, ), }
-shredh::zoo_case!(c647, 647, 'a, Z647_0<'a>);
-#[derive(SystemData)] pub struct Z655_0<'a> { pub f0: Option<ReadExpect<'a, D1>>, pub f1: Read<'a, D0, DefaultProvider>, pub f2: Write<'a, D1, DefaultProvider>, }
-shredh::zoo_case!(c655, 655, 'a, Z655_0<'a>);
-#[derive(SystemData)] pub struct Z663_1<'a> { f0: ReadExpect<'a, D2>, }
-#[derive(SystemData)] pub struct Z663_0<'a>(Z663_1<'a>);
-shredh::zoo_case!(c663, 663, 'a, Z663_0<'a>);
-#[derive(SystemData)] pub struct Z671_0<'a>(Write<'a, D1, DefaultProvider>, Write<'a, D1, DefaultProvider>);
-shredh::zoo_case!(c671, 671, 'a, Z671_0<'a>);
-#[derive(SystemData)] pub struct Z679_0<'a> { pub f0: WriteExpect<'a, D0>, }
-shredh::zoo_case!(c679, 679, 'a, (Z679_0<'a>, Read<'a, D0, Hc<D2>>, ));
-#[derive(SystemData)] pub struct Z687_0<'a, T0: Resource + Default> { pub f0: (Write<'a, D3, Hc<D2>>, ), pub f1: Write<'a, T0>, }
-shredh::zoo_case!(c687, 687, 'a, Z687_0<'a, D2>);
-#[derive(SystemData)] pub struct Z695_0<'a>(Write<'a, D0, PanicHandler>, Option<WriteExpect<'a, D0>>);
-shredh::zoo_case!(c695, 695, 'a, Z695_0<'a>);
-shredh::zoo_case!(c703, 703, 'a, ((Write<'a, D3, Hc<D1>>, ), Read<'a, D1>, ));
-#[derive(SystemData)] pub struct Z711_1<'a> { f0: Read<'a, D0>, }
-#[derive(SystemData)] pub struct Z711_0<'a> { pub f0: Z711_1<'a>, pub f1: Write<'a, D3, Hc<D0>>, }
-shredh::zoo_case!(c711, 711, 'a, Z711_0<'a>);
-#[derive(SystemData)] pub struct Z719_0<'a>(Write<'a, D1, PanicHandler>, Option<Read<'a, N2, PanicHandler>>);
-shredh::zoo_case!(c719, 719, 'a, Z719_0<'a>);
-#[derive(SystemData)] pub struct Z727_0<'a, T0> where T0: Resource { f0: Read<'a, T0, Hc<D1>>, }
-shredh::zoo_case!(c727, 727, 'a, (Write<'a, D1, DefaultProvider>, Z727_0<'a, D2>, ));
-#[derive(SystemData)] pub struct Z735_0<'a> { f0: (Write<'a, D2, Hc<D0>>, ), f1: Write<'a, D0>, }
-shredh::zoo_case!(c735, 735, 'a, Z735_0<'a>);
-#[derive(SystemData)] pub struct Z743_0<'a>(pub (), pub Write<'a, D1, Hc<D2>>);
-shredh::zoo_case!(c743, 743, 'a, Z743_0<'a>);
-shredh::zoo_case!(c751, 751, 'a, ((Write<'a, D1, PanicHandler>, ), Read<'a, D1, Hc<D0>>, ));
-#[derive(SystemData)] pub struct Z759_1<'a>(Option<ReadExpect<'a, N2>>);
-#[derive(SystemData)] pub struct Z759_0<'a> { pub f0: (), pub f1: Z759_1<'a>, }
-shredh::zoo_case!(c759, 759, 'a, Z759_0<'a>);
-#[derive(SystemData)] pub struct Z767_0<'a, T0>(Write<'a, T0, PanicHandler>, Write<'a, D3, DefaultProvider>) where T0: Resource + ZRes;
-shredh::zoo_case!(c767, 767, 'a, Z767_0<'a, D3>);
-#[derive(SystemData)] pub struct Z775_0<'a> { pub f0: Read<'a, D0, Hc<D1>>, }
-shredh::zoo_case!(c775, 775, 'a, ((), Z775_0<'a>, ));
-#[derive(SystemData)] pub struct Z783_1<'a, T0> where T0: Resource { pub f0: Read<'a, T0, Hc<D0>>, }
-#[derive(SystemData)] pub struct Z783_0<'a, T0: Debug + Resource + for<'b> Hrtb<'b> + Default> { f0: Z783_1<'a, D3>, f1: Write<'a, T0, DefaultProvider>, }
-shredh::zoo_case!(c783, 783, 'a, Z783_0<'a, D3>);
-shredh::zoo_case!(c791, 791, 'a, (Write<'a, D3, PanicHandler>, (), ));
-shredh::zoo_case!(c799, 799, 'a, ((PhantomData<&'a u8>, ), Read<'a, D0>, ));
-#[derive(SystemData)] pub struct Z807_0<'a, U0> where U0: SystemData<'a> { pub f0: Write<'a, D1, DefaultProvider>, pub f1: U0, }
-shredh::zoo_case!(c807, 807, 'a, Z807_0<'a, (Read<'a, D1, DefaultProvider>, )>);
-#[derive(SystemData)] pub struct Z815_0<'a, U0>(Option<Read<'a, D3>>, U0) where U0: SystemData<'a>;
-shredh::zoo_case!(c815, 815, 'a, Z815_0<'a, ()>);
-#[derive(SystemData)] pub struct Z823_0<'a> { pub f0: Write<'a, D1, Hc<D3>>, }
-shredh::zoo_case!(c823, 823, 'a, (Z823_0<'a>, Write<'a, D1, DefaultProvider>, ));
-#[derive(SystemData)] pub struct Z831_1<'a>(Write<'a, D3, DefaultProvider>);
-#[derive(SystemData)] pub struct Z831_0<'a> { f0: Z831_1<'a>, f1: Write<'a, D2, Hc<D3>>, }
-shredh::zoo_case!(c831, 831, 'a, Z831_0<'a>);
-#[derive(SystemData)] pub struct Z839_0<'a>(pub Write<'a, D1, PanicHandler>, pub Read<'a, D1>);
-shredh::zoo_case!(c839, 839, 'a, Z839_0<'a>);
-#[derive(SystemData)] pub struct Z847_0<'a> { f0: Write<'a, D2, Hc<D3>>, }
-shredh::zoo_case!(c847, 847, 'a, (Z847_0<'a>, Read<'a, D2, PanicHandler>, ));
-#[derive(SystemData)] pub struct Z855_0<'a> { f0: PhantomData<&'a u8>, }
-shredh::zoo_case!(c855, 855, 'a, (Read<'a, D0, Hc<D3>>, Z855_0<'a>, ));
-#[derive(SystemData)] pub struct Z863_0<'a, T0: Debug + Resource + for<'b> Hrtb<'b>>(pub Write<'a, D2>, pub Option<Read<'a, T0, PanicHandler>>);
-shredh::zoo_case!(c863, 863, 'a, Z863_0<'a, D2>);
-shredh::zoo_case!(c871, 871, 'a, (Read<'a, D3, DefaultProvider>, (Read<'a, D0, Hc<D3>>, ), ));
-#[derive(SystemData)] pub struct Z879_1<'a> { f0: PhantomData<&'a u8>, }
-#[derive(SystemData)] pub struct Z879_0<'a, T0> where T0: Debug + Resource { f0: Z879_1<'a>, f1: Read<'a, T0, Hc<D1>>, }
-shredh::zoo_case!(c879, 879, 'a, Z879_0<'a, D3>);
-#[derive(SystemData)] pub struct Z887_0<'a>(Write<'a, D1>, Read<'a, D1>);
-shredh::zoo_case!(c887, 887, 'a, Z887_0<'a>);
-shredh::zoo_case!(c895, 895, 'a, ((Write<'a, N3, PanicHandler>, ), PhantomData<fn() -> N2>, ));
-shredh::zoo_case!(c903, 903, 'a, ((), (), ));
-shredh::zoo_case!(c911, 911, 'a, (Write<'a, D0, Hc<D0>>, (), (), (), (), ));
-shredh::zoo_case!(c919, 919, 'a, ((), (), Write<'a, D0, PanicHandler>, (), (), (), ));
-shredh::zoo_case!(c927, 927, 'a, ((), (), (), Read<'a, D0>, (), (), (), ));
-shredh::zoo_case!(c935, 935, 'a, ((), (), (), ReadExpect<'a, D0>, (), (), (), (), ));
-shredh::zoo_case!(c943, 943, 'a, ((), (), Write<'a, D1, DefaultProvider>, (), (), (), (), (), (), (), ));
-shredh::zoo_case!(c951, 951, 'a, ((), (), (), (), (), (), (), (), (), (), (), (), (), ));
-shredh::zoo_case!(c959, 959, 'a, ((), (), (), (), (), (), (), PhantomData<&'a u8>, (), (), (), (), (), ));
-shredh::zoo_case!(c967, 967, 'a, ((), PhantomData<&'a u8>, (), (), (), (), (), (), (), (), (), (), (), (), (), ));
-shredh::zoo_case!(c975, 975, 'a, ((), (), (), (), (), (), (), (), (), Option<Write<'a, D0>>, (), (), (), (), (), ));
-shredh::zoo_case!(c983, 983, 'a, ((), Write<'a, D1, Hc<D1>>, (), (), (), (), (), (), (), (), (), (), (), (), (), (), (), (), (), (), (), ));
-shredh::zoo_case!(c991, 991, 'a, ((), (), (), (), (), (), (), (), (), Option<Read<'a, D0, PanicHandler>>, (), (), (), (), (), (), (), (), (), (), (), ));
-shredh::zoo_case!(c999, 999, 'a, ((), (), (), (), (), (), (), (), (), (), (), (), (), (), (), (), (), Option<Write<'a, N2>>, (), (), (), ));
-shredh::zoo_case!(c1007, 1007, 'a, ((), (), (), Write<'a, D3, Hc<D3>>, (), (), (), (), (), (), (), (), (), (), (), (), (), (), (), (), (), (), (), (), (), (), ));
-shredh::zoo_case!(c1015, 1015, 'a, ((), (), (), (), (), (), (), (), (), (), (), Read<'a, D0, Hc<D0>>, (), (), (), (), (), (), (), (), (), (), (), (), (), (), ));
-shredh::zoo_case!(c1023, 1023, 'a, ((), (), (), (), (), (), (), (), (), (), (), (), (), (), (), (), (), (), (), PhantomData<[u32]>, (), (), (), (), (), (), ));
-shredh::zoo_case!(c1031, 1031, 'a, ((), (), (), WriteExpect<'a, D0>, (), (), (), (), (), (), (), (), (), ));
-shredh::zoo_case!(c1039, 1039, 'a, ((), (), (), (), (), (), Option<Read<'a, N3>>, (), (), (), ));
-shredh::zoo_case!(c1047, 1047, 'a, ((), (), (), (), (), (), (), (), (), (), (), (), Write<'a, D0, Hc<D0>>, (), (), ));
-shredh::zoo_case!(c1055, 1055, 'a, ((), (), (), (), (), (), (), ReadExpect<'a, N3>, (), (), (), (), (), (), (), ));
-shredh::zoo_case!(c1063, 1063, 'a, ((), ReadExpect<'a, N0>, (), (), (), (), (), (), (), (), (), (), (), ));
-shredh::zoo_case!(c1071, 1071, 'a, ((), (), (), (), (), (), Write<'a, N0, PanicHandler>, (), (), (), (), (), (), (), (), ));
-shredh::zoo_case!(c1079, 1079, 'a, ((), (), (), (), (), (), (), (), (), (), (), (), (), (), Read<'a, N3, PanicHandler>, ));
-shredh::zoo_case!(c1087, 1087, 'a, ((), (), (), (), (), Write<'a, D0, Hc<D0>>, (), (), (), (), (), (), (), (), (), ));
-shredh::zoo_case!(c1095, 1095, 'a, ((), (), (), (), (), (), (), (), (), (), (), (), (), (), (), (), (), (), (), (), (), Option<Write<'a, N0>>, (), (), (), (), ));
-shredh::zoo_case!(c1103, 1103, 'a, (Write<'a, D2, Hc<D2>>, (), (), ));
-shredh::zoo_case!(c1111, 1111, 'a, ((), (), Option<Write<'a, N0, PanicHandler>>, (), (), (), ));
-shredh::zoo_case!(c1119, 1119, 'a, ((), (), (), (), (), WriteExpect<'a, N3>, (), (), (), (), (), (), (), (), (), ));
-shredh::zoo_case!(c1127, 1127, 'a, ((), (), (), (), (), (), (), (), (), Read<'a, D3>, (), (), (), (), (), ));
-shredh::zoo_case!(c1135, 1135, 'a, ((), Write<'a, D0, DefaultProvider>, (), (), (), (), (), (), (), (), (), (), (), (), (), (), (), (), (), (), (), ));
-shredh::zoo_case!(c1143, 1143, 'a, ((), (), (), (), (), (), (), (), (), (), (), (), (), (), (), PhantomData<(Write<'a, D1>,)>, (), (), (), (), (), (), (), (), (), (), ));
-shredh::zoo_case!(c1151, 1151, 'a, ((), Read<'a, D0, DefaultProvider>, (), (), (), (), (), (), (), (), (), (), (), (), (), (), (), (), (), (), (), ));
-shredh::zoo_case!(c1159, 1159, 'a, ((), (), (), (), (), Option<ReadExpect<'a, D0>>, (), (), ));
-shredh::zoo_case!(c1167, 1167, 'a, ((), (), (), (), (), (), (), (), (), (), (), Option<Write<'a, D2, PanicHandler>>, (), (), (), (), (), (), (), (), (), (), (), (), (), (), ));
-shredh::zoo_case!(c1175, 1175, 'a, ((), (), (), (), PhantomData<D0>, (), (), (), ));
-shredh::zoo_case!(c1183, 1183, 'a, ((), (), (), (), (), (), (), (), (), (), (), (), PhantomData<str>, (), (), (), (), (), (), (), (), ));
-shredh::zoo_case!(c1191, 1191, 'a, ((), (), (), (), (), (), (), (), (), (), (), (), (), (), (), (), (), (), (), (), (), (), (), Read<'a, D2, DefaultProvider>, (), (), ));
-shredh::zoo_case!(c1199, 1199, 'a, (Read<'a, D3, DefaultProvider>, (), (), (), (), (), (), (), ));
-shredh::zoo_case!(c1207, 1207, 'a, ((), (), Read<'a, D0>, (), (), (), (), (), (), (), ));
-shredh::zoo_case!(c1215, 1215, 'a, ((), (), (), (), (), WriteExpect<'a, N2>, (), ));
-shredh::zoo_case!(c1223, 1223, 'a, ((), (), (), (), (), (), (), (), (), Write<'a, D0, Hc<D0>>, ));
-shredh::zoo_case!(c1231, 1231, 'a, ((), (), (), (), (), Option<Write<'a, N3>>, (), (), (), (), (), (), (), (), (), ));
-shredh::zoo_case!(c1239, 1239, 'a, ((), (), (), (), (), (), Read<'a, D1, DefaultProvider>, (), (), (), (), (), (), (), (), (), (), (), (), (), (), ));
-shredh::zoo_case!(c1247, 1247, 'a, ((), (), (), (), (), (), (), (), (), (), (), (), (), (), (), (), (), (), (), (), (), (), (), (), Write<'a, N0, PanicHandler>, (), ));
-shredh::zoo_case!(c1255, 1255, 'a, ((), (), (), Option<Write<'a, D1>>, (), (), (), (), (), (), (), (), (), (), (), (), (), (), (), (), (), (), (), (), (), (), ));
-shredh::zoo_case!(c1263, 1263, 'a, ((), (), (), (), (), (), (), (), (), (), (), Read<'a, D0>, (), (), (), (), (), (), (), (), (), (), (), (), (), (), ));
-shredh::zoo_case!(c1271, 1271, 'a, ((), (), (), (), (), (), (), Write<'a, D0, Hc<D0>>, (), (), ));
-shredh::zoo_case!(c1279, 1279, 'a, ((), (), (), (), (), (), (), (), (), (), (), (), (), (), Read<'a, D2>, (), (), (), (), (), (), ));
-shredh::zoo_case!(c1287, 1287, 'a, ((), (), Option<Write<'a, D3>>, (), (), (), (), (), (), (), (), (), (), (), (), ));
-shredh::zoo_case!(c1295, 1295, 'a, (Read<'a, D1, Hc<D1>>, (), (), (), (), (), (), (), (), (), (), (), (), (), (), (), (), (), (), (), (), ));
-shredh::zoo_case!(c1303, 1303, 'a, ((), (), (), (), (), (), Read<'a, D0, Hc<D0>>, (), (), (), ));
-shredh::zoo_case!(c1311, 1311, 'a, (Write<'a, D2>, (), ));
-shredh::zoo_case!(c1319, 1319, 'a, ((), Read<'a, D3, DefaultProvider>, (), (), (), ));
-shredh::zoo_case!(c1327, 1327, 'a, ((), (), (), (), (), (), (), (), (), (), (), (), (), (), (), (), (), (), (), (), (), Read<'a, D3>, (), (), (), (), ));
-shredh::zoo_case!(c1335, 1335, 'a, ((), (), (), (), (), (), Read<'a, D1, DefaultProvider>, ));
-shredh::zoo_case!(c1343, 1343, 'a, ((), Option<Read<'a, N0, PanicHandler>>, (), (), (), (), ));
-shredh::zoo_case!(c1351, 1351, 'a, ((), (), (), (), (), (), (), (), Write<'a, D2>, (), (), (), (), (), (), (), (), (), (), (), (), (), (), (), (), (), ));
-shredh::zoo_case!(c1359, 1359, 'a, ((), (), (), (), Read<'a, D3, Hc<D3>>, (), (), (), (), (), ));
-shredh::zoo_case!(c1367, 1367, 'a, ((), (), (), (), (), (), (), (), (), (), (), (), WriteExpect<'a, N1>, (), (), ));
-shredh::zoo_case!(c1375, 1375, 'a, ((), (), (), (), (), (), (), Option<Write<'a, D2, PanicHandler>>, (), (), (), (), (), ));
-shredh::zoo_case!(c1383, 1383, 'a, ((), (), (), (), (), (), (), (), (), Option<Read<'a, N2>>, (), (), (), (), (), ));
-shredh::zoo_case!(c1391, 1391, 'a, ((), (), (), (), (), (), (), (), (), (), (), (), (), (), (), (), (), (), (), (), (), (), Option<Write<'a, D1, PanicHandler>>, (), (), (), ));
-shredh::zoo_case!(c1399, 1399, 'a, ((), (), (), (), (), (), PhantomData<&'a u8>, ));
-shredh::zoo_case!(c1407, 1407, 'a, (Read<'a, D3>, Write<'a, D2, DefaultProvider>, ));
-shredh::zoo_case!(c1415, 1415, 'a, (Read<'a, D2, DefaultProvider>, Write<'a, D4>, Read<'a, D1>, Write<'a, D3, DefaultProvider>, ));
-shredh::zoo_case!(c1423, 1423, 'a, (Read<'a, D5>, Write<'a, D3, DefaultProvider>, Read<'a, D0, DefaultProvider>, Write<'a, D2>, Read<'a, D4, DefaultProvider>, Write<'a, D1>, ));
-shredh::zoo_case!(c1431, 1431, 'a, (Read<'a, D3, DefaultProvider>, Write<'a, D23>, Read<'a, D1>, Write<'a, D8, DefaultProvider>, Read<'a, D2, DefaultProvider>, Write<'a, D9, DefaultProvider>, Read<'a, D25>, Write<'a, D16, DefaultProvider>, ));
-shredh::zoo_case!(c1439, 1439, 'a, (Read<'a, D25>, Write<'a, D4, DefaultProvider>, Read<'a, D8, DefaultProvider>, Write<'a, D9, DefaultProvider>, Read<'a, D17>, Write<'a, D6>, Read<'a, D14>, Write<'a, D0, DefaultProvider>, Read<'a, D24>, Write<'a, D11>, ));
-shredh::zoo_case!(c1447, 1447, 'a, (Read<'a, D1>, Write<'a, D13>, Read<'a, D16, DefaultProvider>, Write<'a, D4>, Read<'a, D9, DefaultProvider>, Write<'a, D25, DefaultProvider>, Read<'a, D19, DefaultProvider>, Write<'a, D12, DefaultProvider>, Read<'a, D2, DefaultProvider>, Write<'a, D15, DefaultProvider>, Read<'a, D7>, Write<'a, D21, DefaultProvider>, ));
-shredh::zoo_case!(c1455, 1455, 'a, (Read<'a, D1, DefaultProvider>, Write<'a, D6, DefaultProvider>, Read<'a, D2, DefaultProvider>, Write<'a, D11, DefaultProvider>, Read<'a, D25>, Write<'a, D13>, Read<'a, D0, DefaultProvider>, Write<'a, D4, DefaultProvider>, Read<'a, D12>, Write<'a, D10>, Read<'a, D9>, Write<'a, D24, DefaultProvider>, Read<'a, D20>, Write<'a, D5, DefaultProvider>, ));
-shredh::zoo_case!(c1463, 1463, 'a, (Read<'a, D23, DefaultProvider>, Write<'a, D4, DefaultProvider>, Read<'a, D5>, Write<'a, D2>, Read<'a, D22>, Write<'a, D0, DefaultProvider>, Read<'a, D21>, Write<'a, D19>, Read<'a, D13, DefaultProvider>, Write<'a, D25, DefaultProvider>, Read<'a, D3>, Write<'a, D24, DefaultProvider>, Read<'a, D15, DefaultProvider>, Write<'a, D10>, Read<'a, D9>, Write<'a, D1, DefaultProvider>, ));
-shredh::zoo_case!(c1471, 1471, 'a, (Read<'a, D23>, Write<'a, D25, DefaultProvider>, Read<'a, D9>, Write<'a, D14, DefaultProvider>, Read<'a, D5, DefaultProvider>, Write<'a, D1, DefaultProvider>, Read<'a, D6>, Write<'a, D15, DefaultProvider>, Read<'a, D16>, Write<'a, D11, DefaultProvider>, Read<'a, D2, DefaultProvider>, Write<'a, D4>, Read<'a, D8>, Write<'a, D17>, Read<'a, D24>, Write<'a, D19>, Read<'a, D20>, Write<'a, D18, DefaultProvider>, ));
-shredh::zoo_case!(c1479, 1479, 'a, (Read<'a, D23>, Write<'a, D21>, Read<'a, D17, DefaultProvider>, Write<'a, D6>, Read<'a, D4, DefaultProvider>, Write<'a, D1, DefaultProvider>, Read<'a, D19>, Write<'a, D0>, Read<'a, D8>, Write<'a, D2, DefaultProvider>, Read<'a, D25, DefaultProvider>, Write<'a, D22, DefaultProvider>, Read<'a, D7>, Write<'a, D12, DefaultProvider>, Read<'a, D24>, Write<'a, D11>, Read<'a, D3, DefaultProvider>, Write<'a, D9, DefaultProvider>, Read<'a, D5, DefaultProvider>, Write<'a, D13, DefaultProvider>, ));
-shredh::zoo_case!(c1487, 1487, 'a, (Read<'a, D16>, Write<'a, D6>, Read<'a, D12>, Write<'a, D24>, Read<'a, D0, DefaultProvider>, Write<'a, D13>, Read<'a, D21, DefaultProvider>, Write<'a, D7, DefaultProvider>, Read<'a, D19, DefaultProvider>, Write<'a, D18, DefaultProvider>, Read<'a, D22>, Write<'a, D1, DefaultProvider>, Read<'a, D10, DefaultProvider>, Write<'a, D14, DefaultProvider>, Read<'a, D25>, Write<'a, D2, DefaultProvider>, Read<'a, D5, DefaultProvider>, Write<'a, D3, DefaultProvider>, Read<'a, D4>, Write<'a, D15>, Read<'a, D11, DefaultProvider>, Write<'a, D8>, ));
-shredh::zoo_case!(c1495, 1495, 'a, (Write<'a, D22, DefaultProvider>, Read<'a, D4, DefaultProvider>, Write<'a, D14, DefaultProvider>, Read<'a, D20>, Write<'a, D25, DefaultProvider>, Read<'a, D15, DefaultProvider>, Write<'a, D23, DefaultProvider>, Read<'a, D1>, Write<'a, D21>, Read<'a, D10>, Write<'a, D11, DefaultProvider>, Read<'a, D0, DefaultProvider>, Write<'a, D5>, Read<'a, D16, DefaultProvider>, Write<'a, D9>, Read<'a, D3>, Write<'a, D12>, Read<'a, D7, DefaultProvider>, Write<'a, D6>, Read<'a, D18, DefaultProvider>, Write<'a, D24, DefaultProvider>, Read<'a, D8, DefaultProvider>, Write<'a, D2>, Read<'a, D19>, ));
-shredh::zoo_case!(c1503, 1503, 'a, (Read<'a, D1>, Write<'a, D11>, Read<'a, D19, DefaultProvider>, Write<'a, D16, DefaultProvider>, Read<'a, D6>, Write<'a, D4, DefaultProvider>, Read<'a, D5, DefaultProvider>, Write<'a, D10, DefaultProvider>, Read<'a, D14, DefaultProvider>, Write<'a, D24, DefaultProvider>, Read<'a, D0>, Write<'a, D3, DefaultProvider>, Read<'a, D7>, Write<'a, D9, DefaultProvider>, Read<'a, D17, DefaultProvider>, Write<'a, D25>, Read<'a, D23, DefaultProvider>, Write<'a, D2, DefaultProvider>, Read<'a, D12>, Write<'a, D20, DefaultProvider>, Read<'a, D8, DefaultProvider>, Write<'a, D15>, Read<'a, D21, DefaultProvider>, Write<'a, D18>, Read<'a, D13>, Write<'a, D22, DefaultProvider>, ));
-#[derive(SystemData)] pub struct Z1511_0<'a, T0: Resource + ZRes + Default, U0: SystemData<'a>, T1: Resource> { pub f0: Read<'a, T0, DefaultProvider>, pub f1: U0, pub f2: Read<'a, T1, DefaultProvider>, }
-shredh::zoo_case!(c1511, 1511, 'a, Z1511_0<'a, D1, Write<'a, D2>, D1>);
-shredh::zoo_case!(c1519, 1519, 'a, (Read<'a, D0, DefaultProvider>, Write<'a, D2, DefaultProvider>, Read<'a, D4, Hc<D1>>, ));
-#[derive(SystemData)] pub struct Z1527_1<'a> { f0: Write<'a, D3>, f1: ReadExpect<'a, D0>, }
-#[derive(SystemData)] pub struct Z1527_0<'a, U0: SystemData<'a>>(U0, Write<'a, D4, DefaultProvider>, Read<'a, D1>);
-shredh::zoo_case!(c1527, 1527, 'a, Z1527_0<'a, Z1527_1<'a>>);
-#[derive(SystemData)] pub struct Z1535_0<'a, T0, T1, U0: SystemData<'a>>(pub Read<'a, T0>, pub Write<'a, T1>, pub U0) where T0: Debug + Resource + Default, T1: Resource + ZRes;
-shredh::zoo_case!(c1535, 1535, 'a, Z1535_0<'a, D2, D1, Write<'a, D0, DefaultProvider>>);
-#[derive(SystemData)] pub struct Z1543_0<'a, U0, U1, U2>(pub U0, pub Read<'a, N14, PanicHandler>, pub U1, pub Option<Read<'a, D6, PanicHandler>>, pub Option<Write<'a, N17, PanicHandler>>, pub Read<'a, D19, Hc<D21>>, pub U2, pub (), pub PhantomData<(Write<'a, D1>,)>, pub Read<'a, D1>, pub Write<'a, D8>, pub ReadExpect<'a, D7>, pub WriteExpect<'a, N20>, pub Option<Read<'a, D23>>, pub Option<WriteExpect<'a, N2>>, pub Read<'a, D0, Hc<D4>>, pub Write<'a, D4, Hc<D25>>, pub (), pub PhantomData<str>, pub Read<'a, D22>) where U0: SystemData<'a>, U1: SystemData<'a>, U2: SystemData<'a>;
-shredh::zoo_case!(c1543, 1543, 'a, Z1543_0<'a, Write<'a, D18>, WriteExpect<'a, N24>, Write<'a, D21, Hc<D12>>>);
-#[derive(SystemData)] pub struct Z1551_0<'a> { f0: Write<'a, D5, Hc<D3>>, f1: (), f2: PhantomData<str>, f3: Read<'a, D6, DefaultProvider>, f4: Write<'a, D2, DefaultProvider>, f5: Read<'a, N4, PanicHandler>, f6: Write<'a, N0, PanicHandler>, }
-shredh::zoo_case!(c1551, 1551, 'a, Z1551_0<'a>);
-#[derive(SystemData)] pub struct Z1559_0<'a> { f0: PhantomData<str>, f1: Read<'a, D0>, f2: Write<'a, D1, DefaultProvider>, }
-shredh::zoo_case!(c1559, 1559, 'a, Z1559_0<'a>);
-#[derive(SystemData)] pub struct Z1567_0<'a, U0> where U0: SystemData<'a> { f0: U0, f1: ReadExpect<'a, N2>, }
-shredh::zoo_case!(c1567, 1567, 'a, Z1567_0<'a, Write<'a, D1>>);
-shredh::zoo_case!(c1575, 1575, 'a, (Read<'a, N0, PanicHandler>, Write<'a, D21, PanicHandler>, Option<Read<'a, N7>>, Option<Write<'a, N23>>, Read<'a, D5, Hc<D11>>, Write<'a, D11, Hc<D15>>, (), PhantomData<dyn Send>, Read<'a, D10, DefaultProvider>, Write<'a, D16, DefaultProvider>, Read<'a, N8, PanicHandler>, WriteExpect<'a, D12>, Option<Read<'a, N13>>, Option<WriteExpect<'a, N14>>, ));
-#[derive(SystemData)] pub struct Z1583_0<'a>(pub Read<'a, D2, PanicHandler>, pub WriteExpect<'a, D20>, pub Option<Read<'a, N1, PanicHandler>>, pub Option<Write<'a, N14>>, pub Read<'a, D11, Hc<D5>>, pub Write<'a, D5, Hc<D7>>, pub (), pub PhantomData<D0>, pub Read<'a, D17, DefaultProvider>, pub Write<'a, D22, DefaultProvider>, pub Read<'a, D19, PanicHandler>);
-shredh::zoo_case!(c1583, 1583, 'a, Z1583_0<'a>);
-shredh::zoo_case!(c1591, 1591, 'a, (Read<'a, D24, Hc<D17>>, Write<'a, D17, Hc<D11>>, (), PhantomData<[u32]>, Read<'a, D3>, Write<'a, D9, DefaultProvider>, Read<'a, N12, PanicHandler>, WriteExpect<'a, D8>, Option<Read<'a, N15, PanicHandler>>, Option<WriteExpect<'a, N19>>, Read<'a, D5, Hc<D21>>, Write<'a, D21, Hc<D20>>, (), PhantomData<fn() -> N2>, Read<'a, D18, DefaultProvider>, Write<'a, D0>, ));
-#[derive(SystemData)] pub struct Z1599_0<'a, T0: Debug + Resource + for<'b> Hrtb<'b> + Default> { pub f0: Read<'a, T0>, pub f1: (Read<'a, D4>, ), }
-#[derive(SystemData)] pub struct Z1599_2<'a, T0: Resource + Default, T1: Resource + ZRes>(Write<'a, T0>, Option<Read<'a, T1>>, Read<'a, D4, Hc<D2>>, Read<'a, D2, Hc<D0>>);
-#[derive(SystemData)] pub struct Z1599_1<'a> { pub f0: Z1599_2<'a, D0, D2>, pub f1: (Write<'a, D4, PanicHandler>, Write<'a, D0, DefaultProvider>, Option<Read<'a, D0>>, ), }
-shredh::zoo_case!(c1599, 1599, 'a, (Z1599_0<'a, D2>, Z1599_1<'a>, ((Write<'a, D4, PanicHandler>, Read<'a, D0, Hc<D3>>, Write<'a, D3, PanicHandler>, Write<'a, D0, Hc<D4>>, ), Write<'a, D2, Hc<D0>>, (), ), ));
-#[derive(SystemData)] pub struct Z1607_0<'a> { pub f0: (), pub f1: (Read<'a, D3, PanicHandler>, (), ), }
-shredh::zoo_case!(c1607, 1607, 'a, Z1607_0<'a>);
-#[derive(SystemData)] pub struct Z1615_1<'a, U0, U1>(U0, Read<'a, D0, Hc<D4>>, PhantomData<D0>, U1) where U0: SystemData<'a>, U1: SystemData<'a>;
-#[derive(SystemData)] pub struct Z1615_2<'a>(Option<ReadExpect<'a, D1>>, (), Read<'a, D4, DefaultProvider>, ReadExpect<'a, D0>);
-#[derive(SystemData)] pub struct Z1615_0<'a>(pub Z1615_1<'a, Option<Write<'a, N2, PanicHandler>>, Read<'a, D1, Hc<D4>>>, pub Z1615_2<'a>, pub Write<'a, D0>);
-shredh::zoo_case!(c1615, 1615, 'a, ((Option<Write<'a, D4, PanicHandler>>, ((), Read<'a, D4, DefaultProvider>, Write<'a, D0, DefaultProvider>, Read<'a, D0, DefaultProvider>, ), ), Option<WriteExpect<'a, D1>>, Z1615_0<'a>, ));
-#[derive(SystemData)] pub struct Z1623_1<'a> { f0: Write<'a, D3, Hc<D0>>, }
-#[derive(SystemData)] pub struct Z1623_0<'a>(((), ), Z1623_1<'a>);
-shredh::zoo_case!(c1623, 1623, 'a, Z1623_0<'a>);
-#[derive(SystemData)] pub struct Z1631_2<'a, T0, T1>(pub Read<'a, T0, Hc<D3>>, pub (), pub Read<'a, T1, PanicHandler>) where T0: Resource, T1: Resource + ZRes;
-#[derive(SystemData)] pub struct Z1631_1<'a> { pub f0: WriteExpect<'a, D1>, pub f1: (), pub f2: Z1631_2<'a, D0, D2>, pub f3: Read<'a, D1, DefaultProvider>, }
-#[derive(SystemData)] pub struct Z1631_0<'a>(pub Z1631_1<'a>, pub (PhantomData<(Write<'a, D1>,)>, (ReadExpect<'a, D1>, Option<Write<'a, D3, PanicHandler>>, Write<'a, D2, PanicHandler>, PhantomData<u8>, ), ((), (), Option<Read<'a, D0>>, Write<'a, D3, Hc<D0>>, ), (Write<'a, D3, DefaultProvider>, Option<Read<'a, D0>>, ), ));
-shredh::zoo_case!(c1631, 1631, 'a, Z1631_0<'a>);
-#[derive(SystemData)] pub struct Z1639_2<'a, T0: Debug + Resource + for<'b> Hrtb<'b>, U0: SystemData<'a>, U1, U2: SystemData<'a>> where U1: SystemData<'a> { pub f0: Write<'a, T0, PanicHandler>, pub f1: U0, pub f2: U1, pub f3: U2, }
-#[derive(SystemData)] pub struct Z1639_1<'a, U0: SystemData<'a>, U1: SystemData<'a>> { f0: U0, f1: U1, f2: Z1639_2<'a, D2, Read<'a, D1, Hc<D3>>, PhantomData<str>, WriteExpect<'a, D1>>, f3: Read<'a, D4>, }
-#[derive(SystemData)] pub struct Z1639_4<'a, T0, T1>(Read<'a, T0, Hc<D1>>, Read<'a, T1, PanicHandler>, Read<'a, D2, Hc<D1>>, Read<'a, D2>) where T0: Debug + Resource + for<'b> Hrtb<'b>, T1: Resource;
-#[derive(SystemData)] pub struct Z1639_3<'a> { f0: (Write<'a, D3, Hc<D1>>, PhantomData<str>, Write<'a, D1, Hc<D2>>, (), ), f1: Z1639_4<'a, D4, D1>, f2: (PhantomData<(Write<'a, D1>,)>, Option<Read<'a, D1, PanicHandler>>, ), }
-#[derive(SystemData)] pub struct Z1639_0<'a, T0: Resource>(Z1639_1<'a, Read<'a, D1, Hc<D2>>, Write<'a, D4, PanicHandler>>, Read<'a, T0, Hc<D4>>, Z1639_3<'a>);
-shredh::zoo_case!(c1639, 1639, 'a, Z1639_0<'a, D1>);
-#[derive(SystemData)] pub struct Z1647_2<'a, T0, T1, T2: Resource + ZRes + Default> where T0: Debug + Resource + for<'b> Hrtb<'b>, T1: Debug + Resource + Default { pub f0: Read<'a, T0, Hc<D0>>, pub f1: Read<'a, T1>, pub f2: Read<'a, T2, DefaultProvider>, pub f3: Option<Write<'a, D0, PanicHandler>>, }
-#[derive(SystemData)] pub struct Z1647_1<'a, T0, T1> where T0: Debug + Resource + for<'b> Hrtb<'b>, T1: Debug + Resource { f0: Read<'a, T0, PanicHandler>, f1: Write<'a, T1, DefaultProvider>, f2: Z1647_2<'a, D2, D2, D2>, }
-#[derive(SystemData)] pub struct Z1647_0<'a> { f0: (((), Read<'a, D2, DefaultProvider>, ), (Option<Write<'a, D0, PanicHandler>>, Option<ReadExpect<'a, D2>>, Read<'a, D2, PanicHandler>, ), ), f1: (Read<'a, D2, DefaultProvider>, ), f2: Z1647_1<'a, D2, D0>, f3: Read<'a, D2, Hc<D0>>, }
-shredh::zoo_case!(c1647, 1647, 'a, Z1647_0<'a>);
-#[derive(SystemData)] pub struct Z1655_0<'a, T0: Resource + ZRes, T1> where T1: Debug + Resource { f0: Option<Read<'a, T0, PanicHandler>>, f1: Read<'a, T1, Hc<D4>>, }
-shredh::zoo_case!(c1655, 1655, 'a, ((Z1655_0<'a, D2, D1>, (Write<'a, D1>, ), (PhantomData<dyn Send>, Read<'a, D2, DefaultProvider>, Read<'a, D3, Hc<D4>>, Read<'a, D4>, ), ), ));
-#[derive(SystemData)] pub struct Z1663_0<'a>(pub ((ReadExpect<'a, D4>, Read<'a, D0, Hc<D2>>, Read<'a, D3>, ), Option<WriteExpect<'a, D2>>, PhantomData<fn() -> N2>, ), pub (), pub Read<'a, D2, DefaultProvider>, pub (Read<'a, D3>, ((), ), Option<Read<'a, D4>>, PhantomData<D0>, ));
-shredh::zoo_case!(c1663, 1663, 'a, Z1663_0<'a>);
-#[derive(SystemData)] pub struct Z1671_2<'a, T0: Debug + Resource, T1: Resource + ZRes + Default, T2: Resource> { f0: Read<'a, T0, DefaultProvider>, f1: Write<'a, T1, DefaultProvider>, f2: Option<Write<'a, T2, PanicHandler>>, }
-#[derive(SystemData)] pub struct Z1671_1<'a>(pub Option<WriteExpect<'a, D0>>, pub Z1671_2<'a, D2, D2, D1>, pub (Read<'a, D3, DefaultProvider>, ));
-#[derive(SystemData)] pub struct Z1671_3<'a, T0> where T0: Resource { f0: Option<Write<'a, T0, PanicHandler>>, }
-#[derive(SystemData)] pub struct Z1671_4<'a, T0> where T0: Resource + Default { pub f0: Write<'a, D1, DefaultProvider>, pub f1: Read<'a, T0>, }
-#[derive(SystemData)] pub struct Z1671_0<'a> { pub f0: Z1671_1<'a>, pub f1: (Z1671_3<'a, D1>, (PhantomData<fn() -> N2>, Write<'a, D3>, Option<Write<'a, D3>>, (), ), ((), Option<ReadExpect<'a, D3>>, ReadExpect<'a, D0>, ReadExpect<'a, D1>, ), Z1671_4<'a, D3>, ), pub f2: Write<'a, D2>, }
-shredh::zoo_case!(c1671, 1671, 'a, Z1671_0<'a>);
-shredh::zoo_case!(c1679, 1679, 'a, ((Read<'a, D0>, ReadExpect<'a, D0>, Read<'a, D0, PanicHandler>, ), (Read<'a, D2>, ), Write<'a, D2>, ));
-#[derive(SystemData)] pub struct Z1687_1<'a> { f0: (Option<Read<'a, N0>>, Option<ReadExpect<'a, N0>>, PhantomData<[u32]>, Option<Write<'a, D2>>, ), f1: (), }
-#[derive(SystemData)] pub struct Z1687_0<'a>(Z1687_1<'a>);
-shredh::zoo_case!(c1687, 1687, 'a, Z1687_0<'a>);
-#[derive(SystemData)] pub struct Z1695_2<'a, U0: SystemData<'a>, T0: Debug + Resource + for<'b> Hrtb<'b> + Default, T1: Resource + ZRes> { f0: U0, f1: Read<'a, T0>, f2: ReadExpect<'a, T1>, }
-#[derive(SystemData)] pub struct Z1695_1<'a, U0, U1> where U0: SystemData<'a>, U1: SystemData<'a> { f0: U0, f1: U1, f2: (Read<'a, D2, DefaultProvider>, PhantomData<[u32]>, (), ), f3: Z1695_2<'a, Read<'a, D1>, D1, D2>, }
-#[derive(SystemData)] pub struct Z1695_0<'a, U0, U1, T0: Resource + Default>(pub U0, pub U1, pub Read<'a, T0, DefaultProvider>) where U0: SystemData<'a>, U1: SystemData<'a>;
-shredh::zoo_case!(c1695, 1695, 'a, Z1695_0<'a, Z1695_1<'a, (Option<ReadExpect<'a, D1>>, Read<'a, D1>, ), ((), Option<Read<'a, D1, PanicHandler>>, Read<'a, D3, Hc<D1>>, )>, Read<'a, D2>, D2>);
-#[derive(SystemData)] pub struct Z1703_0<'a> { pub f0: Option<Read<'a, D0>>, pub f1: Read<'a, D2, Hc<D0>>, }
-shredh::zoo_case!(c1703, 1703, 'a, (Read<'a, D2, Hc<D0>>, Z1703_0<'a>, (Option<ReadExpect<'a, N3>>, Write<'a, D0>, ), ));
-#[derive(SystemData)] pub struct Z1711_1<'a, 'x, T0: Resource, T1> where T1: Resource { pub f0: Read<'a, D2, Hc<D1>>, pub f1: PhantomData<&'x i64>, pub f2: Option<WriteExpect<'a, T0>>, pub f3: Option<ReadExpect<'a, T1>>, }
-#[derive(SystemData)] pub struct Z1711_2<'a> { pub f0: Write<'a, D2, Hc<D0>>, pub f1: Option<Read<'a, D0, PanicHandler>>, pub f2: Read<'a, D1>, }
-#[derive(SystemData)] pub struct Z1711_0<'a>(pub Z1711_1<'a, 'a, D2, D1>, pub Z1711_2<'a>);
-#[derive(SystemData)] pub struct Z1711_3<'a> { pub f0: Write<'a, D0, PanicHandler>, pub f1: Read<'a, D2, DefaultProvider>, pub f2: Read<'a, D1, Hc<D0>>, pub f3: Write<'a, D2, Hc<D0>>, }
-#[derive(SystemData)] pub struct Z1711_4<'a> { f0: Write<'a, D2>, f1: (Write<'a, D2>, Write<'a, D0, DefaultProvider>, ), }
-shredh::zoo_case!(c1711, 1711, 'a, (Z1711_0<'a>, WriteExpect<'a, D0>, (Z1711_3<'a>, ), Z1711_4<'a>, ));
-#[derive(SystemData)] pub struct Z1719_0<'a, T0: Debug + Resource + for<'b> Hrtb<'b>> { f0: Read<'a, T0, Hc<D3>>, }
-shredh::zoo_case!(c1719, 1719, 'a, (Z1719_0<'a, D1>, Write<'a, D3, DefaultProvider>, Read<'a, D3, Hc<D1>>, ));
-#[derive(SystemData)] pub struct Z1727_1<'a, U0: SystemData<'a>, U1, T0: Resource + ZRes>(U0, U1, Read<'a, T0>) where U1: SystemData<'a>;
-#[derive(SystemData)] pub struct Z1727_2<'a> { f0: Option<ReadExpect<'a, D2>>, f1: Read<'a, D1>, }
-#[derive(SystemData)] pub struct Z1727_0<'a> { f0: (Write<'a, D2>, Read<'a, D2>, Z1727_1<'a, Read<'a, D3, DefaultProvider>, Read<'a, D1, PanicHandler>, D3>, ), f1: Z1727_2<'a>, }
-shredh::zoo_case!(c1727, 1727, 'a, Z1727_0<'a>);
-#[derive(SystemData)] pub struct Z1735_0<'a> { f0: PhantomData<&'a u8>, }
-#[derive(SystemData)] pub struct Z1735_1<'a, 'x, T0: Resource>(Option<Write<'a, T0, PanicHandler>>, PhantomData<&'x i64>, Write<'a, D3>);
-#[derive(SystemData)] pub struct Z1735_2<'a> { f0: Option<Read<'a, D3, PanicHandler>>, }
-#[derive(SystemData)] pub struct Z1735_3<'a> { f0: Option<Write<'a, D3, PanicHandler>>, f1: (Write<'a, D2, DefaultProvider>, ), }
-shredh::zoo_case!(c1735, 1735, 'a, (Read<'a, D3, PanicHandler>, (Z1735_0<'a>, PhantomData<dyn Send>, Z1735_1<'a, 'a, N0>, Z1735_2<'a>, ), Z1735_3<'a>, ));
-#[derive(SystemData)] pub struct Z1743_1<'a>(Option<ReadExpect<'a, D1>>, Read<'a, D1, Hc<D2>>);
-#[derive(SystemData)] pub struct Z1743_0<'a> { f0: Z1743_1<'a>, }
-shredh::zoo_case!(c1743, 1743, 'a, Z1743_0<'a>);
-#[derive(SystemData)] pub struct Z1751_1<'a> { pub f0: Option<Read<'a, D1>>, pub f1: Option<Read<'a, D1>>, }
-#[derive(SystemData)] pub struct Z1751_0<'a>((), Z1751_1<'a>, Read<'a, D0, DefaultProvider>, Option<Write<'a, D0, PanicHandler>>);
-#[derive(SystemData)] pub struct Z1751_3<'a, T0: Resource + ZRes, T1: Resource>(pub Option<Write<'a, T0>>, pub ReadExpect<'a, T1>);
-#[derive(SystemData)] pub struct Z1751_2<'a, U0: SystemData<'a>, U1: SystemData<'a>>(pub U0, pub U1, pub Z1751_3<'a, D0, D1>);
-shredh::zoo_case!(c1751, 1751, 'a, (Z1751_0<'a>, (), Z1751_2<'a, Read<'a, D3, DefaultProvider>, Read<'a, D0>>, ));
-#[derive(SystemData)] pub struct Z1759_1<'a>(pub Read<'a, D1, DefaultProvider>, pub Option<Write<'a, D2, PanicHandler>>);
-#[derive(SystemData)] pub struct Z1759_0<'a, U0: SystemData<'a>>(pub (Option<ReadExpect<'a, D2>>, ), pub U0);
-shredh::zoo_case!(c1759, 1759, 'a, Z1759_0<'a, (Read<'a, D2>, Z1759_1<'a>, )>);
-#[derive(SystemData)] pub struct Z1767_0<'a>(PhantomData<&'a u8>);
-#[derive(SystemData)] pub struct Z1767_1<'a> { f0: Write<'a, D2, DefaultProvider>, f1: Write<'a, D3, DefaultProvider>, f2: Write<'a, D3, DefaultProvider>, }
-#[derive(SystemData)] pub struct Z1767_2<'a, T0: Resource + ZRes, T1: Debug + Resource> { f0: Read<'a, T0, PanicHandler>, f1: Write<'a, T1, Hc<D2>>, }
-shredh::zoo_case!(c1767, 1767, 'a, (Z1767_0<'a>, (Z1767_1<'a>, ), ((Write<'a, D2, DefaultProvider>, ), Z1767_2<'a, D3, D0>, ), ));
-#[derive(SystemData)] pub struct Z1775_1<'a> { f0: Option<WriteExpect<'a, D2>>, f1: Write<'a, D0, PanicHandler>, f2: Write<'a, D3, Hc<D2>>, f3: ReadExpect<'a, D2>, }
-#[derive(SystemData)] pub struct Z1775_2<'a> { pub f0: (), pub f1: PhantomData<str>, pub f2: Read<'a, D3, DefaultProvider>, }
-#[derive(SystemData)] pub struct Z1775_0<'a>(pub Read<'a, D3, Hc<D0>>, pub (Write<'a, D3, Hc<D2>>, (), PhantomData<D0>, Write<'a, D2, PanicHandler>, ), pub Z1775_1<'a>, pub Z1775_2<'a>);
-shredh::zoo_case!(c1775, 1775, 'a, Z1775_0<'a>);
-shredh::zoo_case!(c1783, 1783, 'a, ((Write<'a, D0>, Write<'a, D1>, Read<'a, D1, Hc<D3>>, ), Write<'a, D1, Hc<D0>>, ));
-#[derive(SystemData)] pub struct Z1791_0<'a, T0: Debug + Resource, T1: Resource, T2: Resource> { f0: Option<Read<'a, T0, PanicHandler>>, f1: WriteExpect<'a, T1>, f2: Option<Write<'a, T2, PanicHandler>>, }
-shredh::zoo_case!(c1791, 1791, 'a, ((PhantomData<(Write<'a, D1>,)>, Option<ReadExpect<'a, D0>>, Write<'a, D0, Hc<D1>>, ), Option<Read<'a, D0, PanicHandler>>, Z1791_0<'a, D4, D3, D3>, (Read<'a, D4, Hc<D0>>, ), ));
-#[derive(SystemData)] pub struct Z1799_2<'a, U0: SystemData<'a>, U1: SystemData<'a>, U2: SystemData<'a>> { pub f0: U0, pub f1: U1, pub f2: U2, pub f3: Read<'a, D0, Hc<D1>>, }
-#[derive(SystemData)] pub struct Z1799_3<'a, U0: SystemData<'a>, U1: SystemData<'a>>(pub (), pub U0, pub Read<'a, D3, DefaultProvider>, pub U1);
-#[derive(SystemData)] pub struct Z1799_4<'a>(Read<'a, D1, Hc<D3>>);
-#[derive(SystemData)] pub struct Z1799_1<'a>(pub Z1799_2<'a, Write<'a, D1>, Option<ReadExpect<'a, D1>>, Option<Read<'a, D1, PanicHandler>>>, pub Z1799_3<'a, Read<'a, D1, Hc<D3>>, Read<'a, D3, Hc<D1>>>, pub Z1799_4<'a>, pub (Read<'a, D1, Hc<D0>>, Option<Read<'a, D3, PanicHandler>>, Option<ReadExpect<'a, D3>>, (), ));
-#[derive(SystemData)] pub struct Z1799_6<'a, T0, T1>(pub Option<Write<'a, T0>>, pub (), pub PhantomData<dyn Send>, pub Read<'a, T1, DefaultProvider>) where T0: Debug + Resource + for<'b> Hrtb<'b>, T1: Debug + Resource + for<'b> Hrtb<'b>;
-#[derive(SystemData)] pub struct Z1799_5<'a, 'x> { f0: PhantomData<&'x i64>, f1: Z1799_6<'a, D1, D3>, }
-#[derive(SystemData)] pub struct Z1799_0<'a, U0: SystemData<'a>, U1: SystemData<'a>> { f0: U0, f1: (PhantomData<&'a u8>, ReadExpect<'a, D1>, ), f2: Z1799_1<'a>, f3: U1, }
-shredh::zoo_case!(c1799, 1799, 'a, Z1799_0<'a, ((Option<Read<'a, D3, PanicHandler>>, Read<'a, D3, DefaultProvider>, ), (Read<'a, D1, Hc<D3>>, PhantomData<&'a u8>, Read<'a, D3, PanicHandler>, ), ), Z1799_5<'a, 'static>>);
-#[derive(SystemData)] pub struct Z1807_1<'a>(Write<'a, D0, DefaultProvider>, Option<Read<'a, D1>>);
-#[derive(SystemData)] pub struct Z1807_2<'a, T0: Debug + Resource + for<'b> Hrtb<'b>> { f0: Option<Read<'a, D3>>, f1: Read<'a, D3>, f2: Option<WriteExpect<'a, D1>>, f3: Read<'a, T0, DefaultProvider>, }
-#[derive(SystemData)] pub struct Z1807_3<'a, U0, U1>(pub U0, pub Option<ReadExpect<'a, D3>>, pub U1, pub Read<'a, D0, Hc<D2>>) where U0: SystemData<'a>, U1: SystemData<'a>;
-#[derive(SystemData)] pub struct Z1807_0<'a>((), Z1807_1<'a>, Z1807_2<'a, D1>, Z1807_3<'a, Read<'a, D0, Hc<D1>>, Read<'a, D2, Hc<D1>>>);
-shredh::zoo_case!(c1807, 1807, 'a, Z1807_0<'a>);
-#[derive(SystemData)] pub struct Z1815_1<'a> { f0: Read<'a, D2, Hc<D3>>, f1: Option<Read<'a, D0, PanicHandler>>, f2: (), f3: Option<Read<'a, D3, PanicHandler>>, }
-#[derive(SystemData)] pub struct Z1815_0<'a> { pub f0: Z1815_1<'a>, }
-shredh::zoo_case!(c1815, 1815, 'a, Z1815_0<'a>);
-#[derive(SystemData)] pub struct Z1823_0<'a, T0: Debug + Resource + for<'b> Hrtb<'b>> { f0: (Read<'a, D2>, (), ), f1: Read<'a, T0, PanicHandler>, }
-shredh::zoo_case!(c1823, 1823, 'a, Z1823_0<'a, D2>);
-#[derive(SystemData)] pub struct Z1831_1<'a, U0: SystemData<'a>> { pub f0: Option<Write<'a, N1, PanicHandler>>, pub f1: Option<Read<'a, D0>>, pub f2: U0, pub f3: (), }
-#[derive(SystemData)] pub struct Z1831_0<'a> { f0: Option<ReadExpect<'a, D0>>, f1: Option<Write<'a, N1>>, f2: Z1831_1<'a, Option<ReadExpect<'a, D0>>>, }
-#[derive(SystemData)] pub struct Z1831_2<'a> { f0: Read<'a, D2, Hc<D0>>, f1: (), f2: Option<Write<'a, D0, PanicHandler>>, f3: PhantomData<&'a u8>, }
-shredh::zoo_case!(c1831, 1831, 'a, (Z1831_0<'a>, (Option<Read<'a, D4>>, Read<'a, D2, DefaultProvider>, Z1831_2<'a>, Read<'a, D0, Hc<D4>>, ), ));
-#[derive(SystemData)] pub struct Z1839_0<'a, T0: Resource>((), Read<'a, T0, DefaultProvider>);
-#[derive(SystemData)] pub struct Z1839_1<'a, U0: SystemData<'a>, U1: SystemData<'a>> { f0: Read<'a, D0, Hc<D2>>, f1: U0, f2: PhantomData<fn() -> N2>, f3: U1, }
-shredh::zoo_case!(c1839, 1839, 'a, (Z1839_0<'a, D1>, Z1839_1<'a, Write<'a, D1, Hc<D2>>, Read<'a, D2>>, Read<'a, D2, Hc<D0>>, WriteExpect<'a, D2>, ));
-#[derive(SystemData)] pub struct Z1847_1<'a>(PhantomData<&'a u8>);
-#[derive(SystemData)] pub struct Z1847_3<'a> { pub f0: (), pub f1: Read<'a, D3, Hc<D4>>, }
-#[derive(SystemData)] pub struct Z1847_4<'a> { f0: Option<Read<'a, D3, PanicHandler>>, }
-#[derive(SystemData)] pub struct Z1847_2<'a, U0, U1>(pub (PhantomData<fn() -> N2>, Read<'a, D4>, Write<'a, D0, DefaultProvider>, ), pub Z1847_3<'a>, pub U0, pub U1) where U0: SystemData<'a>, U1: SystemData<'a>;
-#[derive(SystemData)] pub struct Z1847_0<'a> { pub f0: Z1847_1<'a>, pub f1: Z1847_2<'a, Write<'a, D0, Hc<D4>>, Z1847_4<'a>>, }
-shredh::zoo_case!(c1847, 1847, 'a, Z1847_0<'a>);
-#[derive(SystemData)] pub struct Z1855_2<'a, T0> where T0: Resource + ZRes { pub f0: Read<'a, T0, DefaultProvider>, pub f1: Read<'a, D2, DefaultProvider>, pub f2: Read<'a, D1, PanicHandler>, }
-#[derive(SystemData)] pub struct Z1855_3<'a>(Option<ReadExpect<'a, D4>>);
-#[derive(SystemData)] pub struct Z1855_4<'a, T0: Debug + Resource, T1: Debug + Resource>(Option<Read<'a, T0>>, PhantomData<[u32]>, Read<'a, T1, DefaultProvider>);
-#[derive(SystemData)] pub struct Z1855_1<'a, U0, U1>(pub U0, pub U1, pub Z1855_4<'a, D0, D0>) where U0: SystemData<'a>, U1: SystemData<'a>;
-#[derive(SystemData)] pub struct Z1855_6<'a, T0, T1>(pub Read<'a, T0, Hc<D4>>, pub PhantomData<u8>, pub Read<'a, T1>) where T0: Debug + Resource, T1: Debug + Resource + Default;
-#[derive(SystemData)] pub struct Z1855_5<'a> { pub f0: Z1855_6<'a, D1, D0>, }
-#[derive(SystemData)] pub struct Z1855_0<'a>(pub ReadExpect<'a, D1>, pub Z1855_1<'a, Z1855_2<'a, D4>, Z1855_3<'a>>, pub Z1855_5<'a>);
-shredh::zoo_case!(c1855, 1855, 'a, Z1855_0<'a>);
-#[derive(SystemData)] pub struct Z1863_0<'a, T0> where T0: Debug + Resource + for<'b> Hrtb<'b> + Default { pub f0: Read<'a, T0, DefaultProvider>, }
-shredh::zoo_case!(c1863, 1863, 'a, (Z1863_0<'a, D0>, ));
-#[derive(SystemData)] pub struct Z1871_1<'a>((), Option<Write<'a, D3, PanicHandler>>, Read<'a, D3, DefaultProvider>, PhantomData<dyn Send>);
-#[derive(SystemData)] pub struct Z1871_0<'a> { pub f0: ((Read<'a, D3, Hc<D2>>, Read<'a, D2, DefaultProvider>, ), ), pub f1: (Z1871_1<'a>, Option<Write<'a, D3>>, ), }
-shredh::zoo_case!(c1871, 1871, 'a, Z1871_0<'a>);
-#[derive(SystemData)] pub struct Z1879_0<'a, T0: Debug + Resource + Default, T1: Debug + Resource + for<'b> Hrtb<'b>, T2: Resource>(pub Read<'a, T0>, pub Option<Write<'a, T1>>, pub Write<'a, D5, Hc<D1>>, pub Write<'a, T2, Hc<D3>>, pub Write<'a, D3, DefaultProvider>, pub Option<Read<'a, D2, PanicHandler>>, pub (), pub Read<'a, D5, PanicHandler>, pub Write<'a, D4, PanicHandler>, pub Option<Write<'a, D1>>, pub WriteExpect<'a, D4>, pub WriteExpect<'a, D2>, pub Write<'a, D2>, pub Option<Write<'a, D3, PanicHandler>>, pub Option<WriteExpect<'a, D5>>, pub (), pub Read<'a, D5, Hc<D2>>, pub Option<Read<'a, D5, PanicHandler>>, pub Read<'a, D2>, pub WriteExpect<'a, D3>, pub PhantomData<D0>);
-shredh::zoo_case!(c1879, 1879, 'a, Z1879_0<'a, D2, D1, D4>);
-#[derive(SystemData)] pub struct Z1887_0<'a, T0: Debug + Resource + for<'b> Hrtb<'b>, U0: SystemData<'a>, U1: SystemData<'a>, U2: SystemData<'a>, T1: Resource>(Read<'a, T0, Hc<D5>>, U0, U1, U2, Read<'a, D6, DefaultProvider>, PhantomData<u8>, Option<Write<'a, T1, PanicHandler>>);
-shredh::zoo_case!(c1887, 1887, 'a, Z1887_0<'a, D4, (), PhantomData<&'a u8>, Read<'a, D2, DefaultProvider>, N3>);
-#[derive(SystemData)] pub struct Z1895_0<'a, U0, U1: SystemData<'a>, U2> where U0: SystemData<'a>, U2: SystemData<'a> { f0: (), f1: U0, f2: U1, f3: U2, f4: ReadExpect<'a, N3>, f5: PhantomData<[u32]>, f6: Option<Read<'a, D2, PanicHandler>>, f7: Read<'a, D2, DefaultProvider>, f8: PhantomData<(Write<'a, D1>,)>, f9: Read<'a, D2>, f10: Option<Read<'a, D2, PanicHandler>>, f11: Read<'a, D2>, f12: (), f13: (), }
-shredh::zoo_case!(c1895, 1895, 'a, Z1895_0<'a, Read<'a, D2, DefaultProvider>, Read<'a, D2, DefaultProvider>, Read<'a, D2, PanicHandler>>);
-#[derive(SystemData)] pub struct Z1903_0<'a, U0: SystemData<'a>, U1: SystemData<'a>, U2: SystemData<'a>>(pub U0, pub U1, pub U2, pub Read<'a, D4, DefaultProvider>, pub Write<'a, D2, Hc<D3>>, pub Read<'a, D0, DefaultProvider>, pub Write<'a, D6, DefaultProvider>, pub Option<Write<'a, D16, PanicHandler>>, pub Read<'a, D13, Hc<D2>>, pub Write<'a, D7, Hc<D20>>, pub Option<ReadExpect<'a, D25>>, pub ReadExpect<'a, N1>, pub PhantomData<dyn Send>, pub Read<'a, D23, Hc<D5>>, pub Read<'a, N19, PanicHandler>, pub WriteExpect<'a, D10>, pub Write<'a, D18, Hc<D15>>, pub Read<'a, D15, Hc<D14>>, pub PhantomData<u8>, pub (), pub (), pub Option<Read<'a, D8, PanicHandler>>, pub Option<Read<'a, D21, PanicHandler>>, pub Write<'a, D14, Hc<D8>>, pub Write<'a, D20>);
-shredh::zoo_case!(c1903, 1903, 'a, Z1903_0<'a, (), Option<Write<'a, D3>>, Write<'a, D5, PanicHandler>>);
-#[derive(SystemData)] pub struct Z1911_0<'a, T0, T1, T2>(pub Option<WriteExpect<'a, T0>>, pub Write<'a, T1, PanicHandler>, pub Write<'a, D2, DefaultProvider>, pub Read<'a, T2, PanicHandler>) where T0: Debug + Resource, T1: Resource + ZRes, T2: Resource + ZRes;
-shredh::zoo_case!(c1911, 1911, 'a, Z1911_0<'a, N5, N5, N3>);
-shredh::zoo_case!(c1919, 1919, 'a, (Read<'a, D5, Hc<D20>>, Option<ReadExpect<'a, D22>>, Option<Read<'a, N7, PanicHandler>>, ReadExpect<'a, D10>, Option<Write<'a, D23>>, Read<'a, D20, Hc<D17>>, (), Option<Read<'a, N12>>, ReadExpect<'a, N2>, Read<'a, D8>, Read<'a, D21, Hc<D22>>, Option<Write<'a, D24>>, ));
-#[derive(SystemData)] pub struct Z1927_0<'a, U0: SystemData<'a>, U1: SystemData<'a>, U2: SystemData<'a>> { f0: Write<'a, D1>, f1: Read<'a, D2, Hc<D0>>, f2: U0, f3: Read<'a, D2, Hc<D1>>, f4: U1, f5: Option<Read<'a, D0, PanicHandler>>, f6: PhantomData<dyn Send>, f7: U2, f8: Write<'a, D1, Hc<D2>>, f9: ReadExpect<'a, D0>, f10: Option<WriteExpect<'a, D2>>, f11: Option<Read<'a, D0, PanicHandler>>, f12: WriteExpect<'a, D0>, f13: Read<'a, D2, Hc<D1>>, f14: (), f15: Option<WriteExpect<'a, D1>>, f16: Write<'a, D0>, f17: PhantomData<dyn Send>, f18: Read<'a, D2, PanicHandler>, f19: Read<'a, D0, PanicHandler>, f20: ReadExpect<'a, D0>, f21: Write<'a, D0>, }
-shredh::zoo_case!(c1927, 1927, 'a, Z1927_0<'a, Read<'a, D2, PanicHandler>, Option<WriteExpect<'a, D0>>, Read<'a, D0, Hc<D2>>>);
-#[derive(SystemData)] pub struct Z1935_0<'a, T0, T1, T2> where T0: Resource, T1: Resource, T2: Debug + Resource { f0: PhantomData<[u32]>, f1: Option<Read<'a, T0>>, f2: Option<WriteExpect<'a, T1>>, f3: Write<'a, D5, Hc<D2>>, f4: Write<'a, T2, PanicHandler>, f5: Option<WriteExpect<'a, D2>>, f6: PhantomData<u8>, f7: (), f8: Read<'a, D1, DefaultProvider>, f9: Write<'a, D5>, f10: WriteExpect<'a, D6>, f11: Write<'a, D6, PanicHandler>, f12: PhantomData<(Write<'a, D1>,)>, f13: Read<'a, D6, DefaultProvider>, f14: Option<Read<'a, D4>>, f15: Write<'a, D4, Hc<D1>>, f16: Read<'a, D1, PanicHandler>, f17: Option<ReadExpect<'a, D0>>, f18: Option<WriteExpect<'a, D2>>, f19: PhantomData<(Write<'a, D1>,)>, f20: Write<'a, D6, Hc<D2>>, f21: PhantomData<str>, f22: Option<Write<'a, D1>>, f23: (), }
-shredh::zoo_case!(c1935, 1935, 'a, Z1935_0<'a, D0, D4, D0>);
-#[derive(SystemData)] pub struct Z1943_0<'a, U0: SystemData<'a>, U1: SystemData<'a>, U2: SystemData<'a>>(pub Read<'a, D0, Hc<D2>>, pub PhantomData<D0>, pub Read<'a, D2>, pub U0, pub Write<'a, D0, Hc<D5>>, pub U1, pub Option<WriteExpect<'a, D4>>, pub U2, pub (), pub Read<'a, D3>, pub Option<WriteExpect<'a, D0>>, pub Option<Write<'a, D0, PanicHandler>>, pub Option<ReadExpect<'a, D0>>, pub Read<'a, D3, PanicHandler>, pub (), pub Write<'a, D0, Hc<D3>>, pub Read<'a, D2, Hc<D5>>, pub Read<'a, D0, Hc<D3>>, pub PhantomData<fn() -> N2>, pub Read<'a, D4, Hc<D5>>, pub ());
-shredh::zoo_case!(c1943, 1943, 'a, Z1943_0<'a, Option<ReadExpect<'a, D4>>, Read<'a, D3>, Read<'a, D4, PanicHandler>>);
-shredh::zoo_case!(c1951, 1951, 'a, (Option<WriteExpect<'a, N4>>, (), Read<'a, D6>, (), Option<Read<'a, N2, PanicHandler>>, PhantomData<dyn Send>, Write<'a, D0, Hc<D1>>, Read<'a, D1, Hc<D6>>, ));
-#[derive(SystemData)] pub struct Z1959_0<'a, T0: Resource, U0, T1: Resource + Default, T2: Resource + ZRes, U1: SystemData<'a>> where U0: SystemData<'a> { pub f0: Read<'a, T0, PanicHandler>, pub f1: Read<'a, D4>, pub f2: U0, pub f3: Read<'a, T1>, pub f4: (), pub f5: (), pub f6: PhantomData<u8>, pub f7: Option<ReadExpect<'a, T2>>, pub f8: Read<'a, N1, PanicHandler>, pub f9: U1, pub f10: (), pub f11: Option<ReadExpect<'a, N1>>, pub f12: Read<'a, N1, PanicHandler>, }
-shredh::zoo_case!(c1959, 1959, 'a, Z1959_0<'a, D4, (), D4, N1, Option<ReadExpect<'a, D3>>>);
-#[derive(SystemData)] pub struct Z1967_0<'a> { pub f0: ReadExpect<'a, D1>, pub f1: ReadExpect<'a, D1>, pub f2: ReadExpect<'a, D1>, pub f3: Read<'a, D2>, }
-shredh::zoo_case!(c1967, 1967, 'a, Z1967_0<'a>);
-#[derive(SystemData)] pub struct Z1975_0<'a, 'x>(WriteExpect<'a, N15>, Write<'a, D13, DefaultProvider>, PhantomData<&'x i64>, Option<Read<'a, D9, PanicHandler>>, Read<'a, D4, PanicHandler>, Write<'a, D0>, Write<'a, D2, Hc<D21>>, Option<Read<'a, N7>>, Write<'a, D21, Hc<D9>>, WriteExpect<'a, N25>);
-shredh::zoo_case!(c1975, 1975, 'a, Z1975_0<'a, 'static>);
-shredh::zoo_case!(c1983, 1983, 'a, (Write<'a, D0, Hc<D3>>, PhantomData<str>, Write<'a, D4>, Write<'a, D4, Hc<D2>>, (), Option<ReadExpect<'a, D4>>, Option<Write<'a, D0, PanicHandler>>, Read<'a, D5>, WriteExpect<'a, D5>, WriteExpect<'a, D5>, Read<'a, D2, Hc<D3>>, Option<Write<'a, D2, PanicHandler>>, Write<'a, D5, DefaultProvider>, Write<'a, D2, Hc<D4>>, Write<'a, D2>, WriteExpect<'a, D3>, Option<ReadExpect<'a, D5>>, ReadExpect<'a, D4>, Read<'a, D4, PanicHandler>, Read<'a, D2, PanicHandler>, ReadExpect<'a, D4>, Option<Write<'a, D4, PanicHandler>>, Option<WriteExpect<'a, D3>>, Write<'a, D3, Hc<D4>>, ));
-#[derive(SystemData)] pub struct Z1991_0<'a>((), Read<'a, D2, PanicHandler>, Option<Read<'a, D1>>, Read<'a, D2, PanicHandler>, Read<'a, D1, DefaultProvider>, (), (), Option<ReadExpect<'a, D2>>, Read<'a, D0, DefaultProvider>, PhantomData<(Write<'a, D1>,)>, Read<'a, D0, PanicHandler>, PhantomData<(Write<'a, D1>,)>, ());
-shredh::zoo_case!(c1991, 1991, 'a, Z1991_0<'a>);
-shredh::zoo_case!(c1999, 1999, 'a, ((), ReadExpect<'a, N1>, PhantomData<(Write<'a, D1>,)>, Read<'a, D0, DefaultProvider>, (), Read<'a, N3, PanicHandler>, ));
-#[derive(SystemData)] pub struct Z2007_0<'a>(pub (), pub Read<'a, D5, PanicHandler>, pub Option<Read<'a, N2>>, pub Option<Write<'a, N7, PanicHandler>>, pub Read<'a, D1>, pub (), pub WriteExpect<'a, N0>);
-shredh::zoo_case!(c2007, 2007, 'a, Z2007_0<'a>);
-shredh::zoo_case!(c2015, 2015, 'a, ((), (), PhantomData<(Write<'a, D1>,)>, (), PhantomData<dyn Send>, Read<'a, D3>, PhantomData<fn() -> N2>, (), ReadExpect<'a, D0>, PhantomData<D0>, (), (), Option<Read<'a, D3, PanicHandler>>, Read<'a, D3>, ));
-#[derive(SystemData)] pub struct Z2023_0<'a, U0: SystemData<'a>, U1: SystemData<'a>, U2: SystemData<'a>>(U0, U1, Read<'a, N0, PanicHandler>, U2, Read<'a, D1>, Option<Read<'a, D3, PanicHandler>>, Option<Read<'a, D3>>, (), Option<ReadExpect<'a, D1>>, Option<ReadExpect<'a, N0>>, ReadExpect<'a, D1>, Read<'a, D3, PanicHandler>, (), Read<'a, D3>, (), (), PhantomData<dyn Send>, PhantomData<u8>, ReadExpect<'a, D3>, Read<'a, D3, DefaultProvider>, ReadExpect<'a, D1>, (), PhantomData<dyn Send>, Read<'a, D1, DefaultProvider>, Option<ReadExpect<'a, N0>>);
-shredh::zoo_case!(c2023, 2023, 'a, Z2023_0<'a, (), Option<Read<'a, D3>>, ReadExpect<'a, D1>>);
-#[derive(SystemData)] pub struct Z2031_1<'a, T0> where T0: Resource + ZRes + Default { f0: Write<'a, T0, DefaultProvider>, f1: Read<'a, D1, PanicHandler>, }
-#[derive(SystemData)] pub struct Z2031_2<'a, T0: Debug + Resource + for<'b> Hrtb<'b>> { f0: Option<Read<'a, T0>>, }
-#[derive(SystemData)] pub struct Z2031_0<'a, T0, T1, T2>(((), ), Option<Write<'a, T0, PanicHandler>>, Z2031_1<'a, D2>, Option<Read<'a, T1>>, Read<'a, T2, Hc<D4>>, Write<'a, D2, Hc<D0>>, Write<'a, D4, Hc<D3>>, Read<'a, D0>, Option<Read<'a, D3, PanicHandler>>, ReadExpect<'a, D0>, WriteExpect<'a, D0>, Write<'a, D1, PanicHandler>, Write<'a, D1, Hc<D2>>, Option<WriteExpect<'a, D4>>, Z2031_2<'a, D2>, Read<'a, D3, PanicHandler>, Option<Read<'a, D4, PanicHandler>>) where T0: Resource, T1: Debug + Resource + for<'b> Hrtb<'b>, T2: Resource + ZRes;
-shredh::zoo_case!(c2031, 2031, 'a, Z2031_0<'a, D2, D2, D1>);
-#[derive(SystemData)] pub struct Z2039_0<'a, 'x, T0, T1: Debug + Resource + for<'b> Hrtb<'b> + Default, T2: Resource + ZRes + Default> where T0: Resource { f0: (), f1: Write<'a, D0>, f2: PhantomData<&'x i64>, f3: Option<Read<'a, D3, PanicHandler>>, f4: Write<'a, T0, PanicHandler>, f5: Write<'a, D1, Hc<D2>>, f6: Write<'a, T1, DefaultProvider>, f7: Read<'a, D3, Hc<D2>>, f8: Write<'a, T2, DefaultProvider>, f9: Read<'a, D1, DefaultProvider>, f10: Read<'a, D2, Hc<D0>>, f11: Read<'a, D1, PanicHandler>, f12: PhantomData<T0>, f13: WriteExpect<'a, D3>, f14: Write<'a, D0, PanicHandler>, f15: Write<'a, D1, PanicHandler>, f16: Option<Write<'a, D0, PanicHandler>>, f17: Read<'a, D0>, f18: Option<WriteExpect<'a, D0>>, f19: ReadExpect<'a, D2>, }
-shredh::zoo_case!(c2039, 2039, 'a, Z2039_0<'a, 'a, D1, D3, D1>);
-#[derive(SystemData)] pub struct Z2047_0<'a, U0: SystemData<'a>, U1: SystemData<'a>, U2: SystemData<'a>> { pub f0: U0, pub f1: ReadExpect<'a, N2>, pub f2: U1, pub f3: U2, pub f4: Read<'a, D3, DefaultProvider>, pub f5: (), }
-shredh::zoo_case!(c2047, 2047, 'a, Z2047_0<'a, Option<ReadExpect<'a, N2>>, Read<'a, D1>, ()>);
-#[derive(SystemData)] pub struct Z2055_0<'a, T0: Resource, T1, T2>(pub Write<'a, T0, Hc<D5>>, pub (), pub Write<'a, T1>, pub ReadExpect<'a, T2>, pub (), pub (), pub (), pub WriteExpect<'a, D5>, pub Read<'a, D18, DefaultProvider>, pub Write<'a, D24, Hc<D14>>, pub Option<Read<'a, N25, PanicHandler>>, pub Write<'a, D14>, pub Write<'a, N8, PanicHandler>, pub Read<'a, D2>, pub Write<'a, D19, DefaultProvider>, pub ReadExpect<'a, D20>, pub Write<'a, D9, PanicHandler>) where T1: Debug + Resource, T2: Resource;
-shredh::zoo_case!(c2055, 2055, 'a, Z2055_0<'a, D12, D10, D15>);
-#[derive(SystemData)] pub struct Z2063_0<'a, T0: Resource, T1: Debug + Resource, T2: Resource + ZRes>((), Option<Read<'a, T0>>, Read<'a, D4>, Read<'a, D6, Hc<D3>>, Option<WriteExpect<'a, T1>>, Write<'a, T2, Hc<D3>>);
-shredh::zoo_case!(c2063, 2063, 'a, Z2063_0<'a, D0, N1, D2>);
-#[derive(SystemData)] pub struct Z2071_1<'a> { f0: Write<'a, D2>, }
-#[derive(SystemData)] pub struct Z2071_2<'a> { f0: Option<Read<'a, D5>>, }
-#[derive(SystemData)] pub struct Z2071_3<'a>(pub Write<'a, D0, DefaultProvider>);
-#[derive(SystemData)] pub struct Z2071_0<'a, T0, T1, T2>(pub Read<'a, T0>, pub ((), (), Read<'a, D2, PanicHandler>, ), pub Write<'a, D3, Hc<D1>>, pub Write<'a, T1, Hc<D0>>, pub Write<'a, T2, Hc<D0>>, pub Z2071_1<'a>, pub PhantomData<[u32]>, pub Option<Read<'a, D1, PanicHandler>>, pub Z2071_2<'a>, pub ReadExpect<'a, D2>, pub Option<Write<'a, D3>>, pub Z2071_3<'a>) where T0: Debug + Resource, T1: Resource + ZRes, T2: Debug + Resource;
-shredh::zoo_case!(c2071, 2071, 'a, Z2071_0<'a, D3, D1, D5>);
-#[derive(SystemData)] pub struct Z2079_0<'a, U0, U1, U2>(pub U0, pub U1, pub U2, pub Option<ReadExpect<'a, D1>>, pub Read<'a, D1, DefaultProvider>, pub PhantomData<fn() -> N2>, pub Option<Read<'a, N0>>, pub Option<Read<'a, N0>>, pub PhantomData<fn() -> N2>, pub Read<'a, D1, DefaultProvider>, pub Read<'a, D1, PanicHandler>, pub Option<ReadExpect<'a, D1>>, pub PhantomData<str>, pub Read<'a, D3, DefaultProvider>, pub Read<'a, D5, DefaultProvider>, pub Read<'a, D4, PanicHandler>, pub (), pub Read<'a, D1, PanicHandler>, pub Read<'a, D3, PanicHandler>, pub PhantomData<str>) where U0: SystemData<'a>, U1: SystemData<'a>, U2: SystemData<'a>;
-shredh::zoo_case!(c2079, 2079, 'a, Z2079_0<'a, PhantomData<fn() -> N2>, Option<ReadExpect<'a, D4>>, Read<'a, D4, DefaultProvider>>);
-shredh::zoo_case!(c2087, 2087, 'a, (Read<'a, D1, Hc<D0>>, PhantomData<(Write<'a, D1>,)>, Option<ReadExpect<'a, D2>>, Option<Read<'a, D2, PanicHandler>>, Write<'a, D1, Hc<D2>>, Write<'a, D4, DefaultProvider>, PhantomData<str>, Read<'a, D1, Hc<D4>>, PhantomData<u8>, Read<'a, D4, PanicHandler>, Read<'a, D1, Hc<D2>>, Read<'a, D2, DefaultProvider>, ));
-pub static CASES: &[&shredh::zoo::Ops] = &[
-    &c7::OPS,
-    &c15::OPS,
-    &c23::OPS,
-    &c31::OPS,
-    &c39::OPS,
-    &c47::OPS,
-    &c55::OPS,
-    &c63::OPS,
-    &c71::OPS,
-    &c79::OPS,
-    &c87::OPS,
-    &c95::OPS,
-    &c103::OPS,
-    &c111::OPS,
-    &c119::OPS,
-    &c127::OPS,
-    &c135::OPS,
-    &c143::OPS,
-    &c151::OPS,
-    &c159::OPS,
-    &c167::OPS,
-    &c175::OPS,
-    &c183::OPS,
-    &c191::OPS,
-    &c199::OPS,
-    &c207::OPS,
-    &c215::OPS,
-    &c223::OPS,
-    &c231::OPS,
-    &c239::OPS,
-    &c247::OPS,
-    &c255::OPS,
-    &c263::OPS,
-    &c271::OPS,
-    &c279::OPS,
-    &c287::OPS,
-    &c295::OPS,
-    &c303::OPS,
-    &c311::OPS,
-    &c319::OPS,
-    &c327::OPS,
-    &c335::OPS,
-    &c343::OPS,
-    &c351::OPS,
-    &c359::OPS,
-    &c367::OPS,
-    &c375::OPS,
-    &c383::OPS,
-    &c391::OPS,
-    &c399::OPS,
-    &c407::OPS,
-    &c415::OPS,
-    &c423::OPS,
-    &c431::OPS,
-    &c439::OPS,
-    &c447::OPS,
-    &c455::OPS,
-    &c463::OPS,
-    &c471::OPS,
-    &c479::OPS,
-    &c487::OPS,
-    &c495::OPS,
-    &c503::OPS,
-    &c511::OPS,
-    &c519::OPS,
-    &c527::OPS,
-    &c535::OPS,
-    &c543::OPS,
-    &c551::OPS,
-    &c559::OPS,
-    &c567::OPS,
-    &c575::OPS,
-    &c583::OPS,
-    &c591::OPS,
-    &c599::OPS,
-    &c607::OPS,
-    &c615::OPS,
-    &c623::OPS,
-    &c631::OPS,
-    &c639::OPS,
-    &c647::OPS,
-    &c655::OPS,
-    &c663::OPS,
-    &c671::OPS,
-    &c679::OPS,
-    &c687::OPS,
-    &c695::OPS,
-    &c703::OPS,
-    &c711::OPS,
-    &c719::OPS,
-    &c727::OPS,
-    &c735::OPS,
-    &c743::OPS,
-    &c751::OPS,
-    &c759::OPS,
-    &c767::OPS,
-    &c775::OPS,
-    &c783::OPS,
-    &c791::OPS,
-    &c799::OPS,
-    &c807::OPS,
-    &c815::OPS,
-    &c823::OPS,
-    &c831::OPS,
-    &c839::OPS,
-    &c847::OPS,
-    &c855::OPS,
-    &c863::OPS,
-    &c871::OPS,
-    &c879::OPS,
-    &c887::OPS,
-    &c895::OPS,
-    &c903::OPS,
-    &c911::OPS,
-    &c919::OPS,
-    &c927::OPS,
-    &c935::OPS,
-    &c943::OPS,
-    &c951::OPS,
-    &c959::OPS,
-    &c967::OPS,
-    &c975::OPS,
-    &c983::OPS,
-    &c991::OPS,
-    &c999::OPS,
-    &c1007::OPS,
-    &c1015::OPS,
-    &c1023::OPS,
-    &c1031::OPS,
-    &c1039::OPS,
-    &c1047::OPS,
-    &c1055::OPS,
-    &c1063::OPS,
-    &c1071::OPS,
-    &c1079::OPS,
-    &c1087::OPS,
-    &c1095::OPS,
-    &c1103::OPS,
-    &c1111::OPS,
-    &c1119::OPS,
-    &c1127::OPS,
-    &c1135::OPS,
-    &c1143::OPS,
-    &c1151::OPS,
-    &c1159::OPS,
-    &c1167::OPS,
-    &c1175::OPS,
-    &c1183::OPS,
-    &c1191::OPS,
-    &c1199::OPS,
-    &c1207::OPS,
-    &c1215::OPS,
-    &c1223::OPS,
-    &c1231::OPS,
-    &c1239::OPS,
-    &c1247::OPS,
-    &c1255::OPS,
-    &c1263::OPS,
-    &c1271::OPS,
-    &c1279::OPS,
-    &c1287::OPS,
-    &c1295::OPS,
-    &c1303::OPS,
-    &c1311::OPS,
-    &c1319::OPS,
-    &c1327::OPS,
-    &c1335::OPS,
-    &c1343::OPS,
-    &c1351::OPS,
-    &c1359::OPS,
-    &c1367::OPS,
-    &c1375::OPS,
-    &c1383::OPS,
-    &c1391::OPS,
-    &c1399::OPS,
-    &c1407::OPS,
-    &c1415::OPS,
-    &c1423::OPS,
-    &c1431::OPS,
-    &c1439::OPS,
-    &c1447::OPS,
-    &c1455::OPS,
-    &c1463::OPS,
-    &c1471::OPS,
-    &c1479::OPS,
-    &c1487::OPS,
-    &c1495::OPS,
-    &c1503::OPS,
-    &c1511::OPS,
-    &c1519::OPS,
-    &c1527::OPS,
-    &c1535::OPS,
-    &c1543::OPS,
-    &c1551::OPS,
-    &c1559::OPS,
-    &c1567::OPS,
-    &c1575::OPS,
-    &c1583::OPS,
-    &c1591::OPS,
-    &c1599::OPS,
-    &c1607::OPS,
-    &c1615::OPS,
-    &c1623::OPS,
-    &c1631::OPS,
-    &c1639::OPS,
-    &c1647::OPS,
-    &c1655::OPS,
-    &c1663::OPS,
-    &c1671::OPS,
-    &c1679::OPS,
-    &c1687::OPS,
-    &c1695::OPS,
-    &c1703::OPS,
-    &c1711::OPS,
-    &c1719::OPS,
-    &c1727::OPS,
-    &c1735::OPS,
-    &c1743::OPS,
-    &c1751::OPS,
-    &c1759::OPS,
-    &c1767::OPS,
-    &c1775::OPS,
-    &c1783::OPS,
-    &c1791::OPS,
-    &c1799::OPS,
-    &c1807::OPS,
-    &c1815::OPS,
-    &c1823::OPS,
-    &c1831::OPS,
-    &c1839::OPS,
-    &c1847::OPS,
-    &c1855::OPS,
-    &c1863::OPS,
-    &c1871::OPS,
-    &c1879::OPS,
-    &c1887::OPS,
-    &c1895::OPS,
-    &c1903::OPS,
-    &c1911::OPS,
-    &c1919::OPS,
-    &c1927::OPS,
-    &c1935::OPS,
-    &c1943::OPS,
-    &c1951::OPS,
-    &c1959::OPS,
-    &c1967::OPS,
-    &c1975::OPS,
-    &c1983::OPS,
-    &c1991::OPS,
-    &c1999::OPS,
-    &c2007::OPS,
-    &c2015::OPS,
-    &c2023::OPS,
-    &c2031::OPS,
-    &c2039::OPS,
-    &c2047::OPS,
-    &c2055::OPS,
-    &c2063::OPS,
-    &c2071::OPS,
-    &c2079::OPS,
-    &c2087::OPS,
-];
+// placeholder written by harness/gen/zoo.py (the real file is a build artefact of bin/check C06)
+pub const GEN_HASH: &str = "placeholder";
+pub static CASES: &[&shredh::zoo::Ops] = &[];
